@@ -1,408 +1,1195 @@
 """C19 -- load stepping: warm start is the linear predictor, scaling is transparent, parameters current.
 
-  D1  predictor sign: warm_start_increment solves  H dx = J_p (p_old - p_new)  (old minus new, unnegated
-      operator / right-hand side / result) and every driver *adds* the increment: dx = -H^-1 J_p (p_new - p_old);
-      the slot used for the difference is the slot of the Jacobian-vector product;
-  D2  in all four drivers the objective's parameters are assigned before the solve and after the warm start;
-  D3  scaling transparency: drivers enter with scaling*x0 (and scaled bounds), leave with invScaling*xBar;
-      ScaledObjective / BoundConstrainedObjective evaluate the user function at invScaling*xBar, start from
-      scaling*x0, store scaling and invScaling = 1/scaling; the scaled preconditioner is the congruence with
-      the same diagonal and is initialised at the unscaled point;
-  D4  param_index_update slot table.
+The warm start, the four load-step drivers, the scaled objectives / preconditioner strategies and the parameter-derivative closures are
+*interpreted* on symbolic inputs by the load-step machine (rules/C19_sym.py); the obligations compare the resulting values and effect
+traces with what the property demands.  Nothing is matched against statement text or local names.
+
+  D1  predictor sign: with an abstract objective (hessian_vec = d grad/dx [v], jacobian_p_vec / jacobian_p2_vec = d grad/dp_k [v], all at the
+      objective's current parameters) `warm_start_increment` hands the iterative solver the operator +H(x; p_old), the right-hand side
+      J_k(x; p_old)[p_old_k - p_new_k] and returns the solution unnegated, i.e. dx = -H^-1 J_k (p_new_k - p_old_k); every driver adds
+      exactly what the warm start returned to its start point;
+  D2  in all four drivers, for every combination of the boolean options and every path: whenever the objective is handed to other code
+      (the nonlinear solve, callbacks) it carries the new parameters, it still does when the driver returns, the warm start runs with
+      the old ones and is given the objective and the new parameters; the bound-constrained front end hands the same p on;
+  D3  scaling transparency: drivers start the solver from scaling*x0 (+ increment), linearise warm start and preconditioner at that
+      scaled point, scale bounds like the iterate, return invScaling*(solver result); ScaledObjective / BoundConstrainedObjective
+      evaluate the user function at t*xBar, start the base class from s*x0 with s*t = 1, store s and t as scaling / invScaling, derive s from
+      sqrt(diag K0) of the strategy initialised at x0, and give the scaled strategy the diagonal t; ScaledPrecondStrategy returns the
+      congruence D^T K D with D = diag(its argument) and initialises the inner strategy at D x;
+  D4  param_index_update slot table; the Objective's jvp closures differentiate the gradient at their own arguments (no state captured
+      at jit-trace time) and hessian_vec / jacobian_p_vec / jacobian_p2_vec implement the abstract objective used in D1.
 Not decided: accuracy of the CG solve, numerical equality of scaled and unscaled solutions.
 """
 from __future__ import annotations
 
 import ast
-import re
+import itertools
 
-from optilint.cfg import cfg_of
-from optilint.model import dotted, walk_local
 from optilint.core import Incomplete
-from optilint.expr import Algebra, NotPolynomial
-from . import trustregion as tr
-from .common import src, expand, canon, same, calls_in, single_def, def_value, const_value, actual
+from optilint.model import walk_local, dotted, FuncVal
+from .C19_sym import (Machine, Oracle, explore, Unsupported, PathEnd, Budget, Num, Record, RecordType, Obj, Closure, Bound, FunSym, JitFn, GradFn, Mat,
+                      OpaqueAttr, Partial, mutable_attributes)
 
 LEVEL = "other"
-RULE_TEXT = ("obligations = (step of the warm-start sign chain) + (driver x parameter-ordering clause) + "
-             "(driver/objective x scaling clause) + parameter slot table")
-EXPLANATION = ("Static analysis of WarmStart.py, Objective.py and the four load-step drivers: sign-parity chain of the "
-               "predictor, dominator-based ordering of warm start / parameter assignment / solve, and algebraic checks "
-               "of the diagonal change of variables. Accuracy of the linear solve is not decided.")
+RULE_TEXT = ("obligations = (warm-start function x slot scenario x {returned value, operator, right-hand side}) + (driver x {increment added, parameters "
+             "current at every hand-off, predictor sees old parameters, scaled entry / linearisation point / bounds / exit}) + (scaled objective / "
+             "strategy class x scaling clause) + parameter slot table and derivative closures")
+EXPLANATION = ("Symbolic interpretation (rules/C19_sym.py: exact rational values over structured atoms, linear-operator atoms, heap objects with an effect "
+               "trace, path enumeration over unknown conditions, try/except and all boolean options, loop summaries, jit trace-time staleness) of "
+               "WarmStart.py, the four load-step drivers, ScaledObjective / BoundConstrainedObjective / ScaledPrecondStrategy and Objective.__init__; the "
+               "resulting values are compared with -H^-1 J_p (p_new - p_old), scaling*x0, invScaling*result etc. Accuracy of the linear solve is not decided.")
 
 WS = "optimism.WarmStart"
 OBJ = "optimism.Objective"
+BCO = "optimism.BoundConstrainedObjective"
+# (driver, works in scaled variables)
 DRIVERS = [
-    ("optimism.EquationSolver:nonlinear_equation_solve", "solver_algorithm"),
-    ("optimism.TrustRegionSPG:solve", "bound_constrained_trust_region_minimize"),
-    ("optimism.AlSolver:augmented_lagrange_solve", "solve_sub_step"),
-    ("optimism.BoundConstrainedSolver:bound_constrained_solve", "augmented_lagrange_solve"),
+    ("optimism.EquationSolver:nonlinear_equation_solve", True),
+    ("optimism.TrustRegionSPG:solve", True),
+    ("optimism.AlSolver:augmented_lagrange_solve", False),
+    ("optimism.BoundConstrainedSolver:bound_constrained_solve", True),
 ]
+# protocol of the objective used by the warm start: method -> differentiated argument path of the gradient g(x, p)
+PROTOCOL = {"hessian_vec": (0,), "jacobian_p_vec": (1, 0), "jacobian_p2_vec": (1, 2)}
+SLOT_METHOD = {0: "jacobian_p_vec", 2: "jacobian_p2_vec"}
+ERR = (Unsupported, Budget, KeyError, IndexError, AttributeError, TypeError, ValueError, RecursionError)
 
 
 def run(ctx):
-    for m in (WS, OBJ, "optimism.EquationSolver", "optimism.TrustRegionSPG", "optimism.AlSolver",
-              "optimism.BoundConstrainedSolver", "optimism.BoundConstrainedObjective"):
-        ctx.need_module(m)
+    for mname in (WS, OBJ, "optimism.EquationSolver", "optimism.TrustRegionSPG", "optimism.AlSolver",
+                  "optimism.BoundConstrainedSolver", BCO):
+        ctx.need_module(mname)
     ctx.guard(d1, ctx)
-    ctx.guard(d2, ctx)
-    ctx.guard(d3, ctx)
+    ctx.guard(drivers, ctx)
+    ctx.guard(d3_classes, ctx)
+    ctx.guard(d3_strategies, ctx)
     ctx.guard(d4, ctx)
     ctx.trust("scipy.sparse.linalg.cg(A, b, M=...) returns an approximation of A^-1 b")
+    ctx.trust("jax.jvp(f, (x,), (v,)) = (f(x), Df(x)[v]); jax.jit caches Python-level state read at trace time; the `.primal` of a jax tracer has the tracer's value")
     ctx.assume("Hessian positive definite at the current solution; diagonal scalings > 0 (property text)")
 
 
-# ------------------------------------------------------------------ D1
+# ------------------------------------------------------------------ shared set-up
+
+def _mutable(ctx):
+    r = ctx.repo
+    if not hasattr(r, "_c19_mutable"):
+        r._c19_mutable = mutable_attributes(r)
+    return r._c19_mutable
+
+
+def _inline_policy(ctx):
+    """Which module-level repository functions are interpreted when called: everything in WarmStart, every function whose call cone
+    (depth 3) reaches the warm start or assigns a `.p` attribute (extracted pieces of a driver), and -- optionally -- small loop-free helpers."""
+    repo = ctx.repo
+    cache = {}
+
+    def touches(sc, depth, seen):
+        if id(sc) in seen or depth > 3:
+            return False
+        seen.add(id(sc))
+        for n in ast.walk(sc.node):
+            if isinstance(n, ast.Attribute) and isinstance(n.ctx, ast.Store) and n.attr == "p":
+                return True
+        for n in ast.walk(sc.node):
+            if isinstance(n, ast.Call):
+                try:
+                    vals = repo.resolve(n.func, sc)
+                except Exception:
+                    vals = ()
+                for v in vals:
+                    if isinstance(v, FuncVal):
+                        if v.scope.module.name == WS:
+                            return True
+                        if touches(v.scope, depth + 1, seen):
+                            return True
+        return False
+
+    def small(sc):
+        n_st = 0
+        for n in ast.walk(sc.node):
+            if isinstance(n, (ast.For, ast.While, ast.Try, ast.With, ast.AsyncFor, ast.AsyncWith)):
+                return False
+            if isinstance(n, (ast.FunctionDef, ast.ClassDef)) and n is not sc.node:
+                return False
+            if isinstance(n, ast.stmt):
+                n_st += 1
+        return n_st <= 25
+
+    def inline(sc):
+        k = id(sc)
+        if k not in cache:
+            if sc.module.name == WS:
+                cache[k] = True
+            elif sc.module.is_test:
+                cache[k] = False
+            elif sc.qualname in {q for q, _ in DRIVERS}:
+                # another load-step driver (verified on its own): interpreted in line when possible, else an opaque hand-off
+                cache[k] = "try"
+            elif touches(sc, 0, set()):
+                cache[k] = True
+            else:
+                cache[k] = "try" if small(sc) else False
+        return cache[k]
+    return inline
+
+
+def _params_type(m, ctx):
+    t = m.module_value(ctx.need_module(OBJ), "Params")
+    if not isinstance(t, RecordType):
+        raise Incomplete("optimism.Objective.Params is not a namedtuple")
+    return t
+
+
+def _params(m, t, prefix):
+    return Record(t.name, t.fields, [m.sym(f"{prefix}{i}") for i in range(len(t.fields))])
+
+
+def _grad_atom(m, x, p, fname="E"):
+    g = m.app(f"grad0[{fname}]", [x, p])
+    (ga,) = g.r.atoms()
+    return ga
+
+
+def _protocol_value(m, meth, x, p, v, fname="E"):
+    return m.lin(("D", _grad_atom(m, x, p, fname), PROTOCOL[meth]), v)
+
+
+def _spec_objective(m, name, pold, scaled, cls=None):
+    """abstract objective: the three derivative products of the protocol at the *current* parameters, preconditioner refresh as an event;
+    any other method is looked up in the real Objective class (e.g. a setter for the parameters) and, failing that, is an opaque event"""
+    def deriv(meth):
+        def f(mm, o, args, kw, node):
+            if len(args) != 2 or kw:
+                raise Unsupported(f"{meth} call form")
+            return _protocol_value(mm, meth, mm.num(args[0]), o.attrs.get("p"), mm.num(args[1]))
+        return f
+
+    def update_precond(mm, o, args, kw, node):
+        mm.events.append({"kind": "precond", "obj": o, "point": args[0] if args else None, "p": o.attrs.get("p"), "node": node, "idx": len(mm.events)})
+        return None
+    spec = {k: deriv(k) for k in PROTOCOL}
+    spec["update_precond"] = update_precond
+    spec["apply_precond"] = lambda mm, o, args, kw, node: mm.app("apply_precond", list(args))
+    spec["value"] = lambda mm, o, args, kw, node: mm.app("E", [args[0], o.attrs.get("p")])
+    spec["gradient"] = lambda mm, o, args, kw, node: mm.app("grad0[E]", [args[0], o.attrs.get("p")])
+    o = Obj(name, cls=cls, spec=spec)
+    o.attrs["p"] = pold
+    if scaled:
+        s = m.sym("S")
+        o.attrs["scaling"] = s
+        o.attrs["invScaling"] = Num(m.A.const(1) / s.r)
+    else:
+        o.attrs["scaling"] = 1.0
+        o.attrs["invScaling"] = 1.0
+    return o
+
+
+KNOWN_KINDS = {"sym", "lin", "sqrt", "stale", "matsym"}
+KNOWN_APPS = {"apply_precond", "E"}        # functions of the abstract objective
+
+
+def _precise(m, *vals, lenient=False):
+    """no atom stands for something the machine does not understand.  strict: results of opaque calls, loop havoc and unknown pure
+    functions are not understood; lenient (class analyses on opaque inputs): uninterpreted functions of the inputs and results of the
+    opaque input objects are as good as symbols, only loop havoc and results of repository functions that were not interpreted are not."""
+    for v in vals:
+        for a in m.atoms_deep(v):
+            k = m.kind(a)
+            if k in KNOWN_KINDS:
+                continue
+            ex = m.info[a][1]
+            fn_ = ex.get("f", "") if k == "app" else ""
+            if k == "app" and (fn_.startswith("grad0[") or fn_ in KNOWN_APPS):
+                continue
+            if k == "app" and lenient and (fn_.startswith(".") or fn_ in ("[]", "item", "diagonal", "F", "setitem")):
+                continue
+            if k == "ret" and lenient:
+                ev = m.events[ex["event"]] if isinstance(ex.get("event"), int) and ex["event"] < len(m.events) else {}
+                if ev.get("kind") == "ocall" or (ev.get("kind") == "use" and ev.get("callee_scope") is None):
+                    continue
+            return False
+    return True
+
+
+def _show(m, v, n=110):
+    try:
+        s = m.key(v)
+    except Exception:
+        s = repr(v)
+    return s if len(s) <= n else s[:n] + "..."
+
+
+def _verdict(ok, precise):
+    """True -> proved, definite mismatch -> refuted only when every value involved is understood, otherwise undecided"""
+    if ok:
+        return True
+    return False if precise else None
+
+
+def _path_label(combo, orc):
+    bits = [f"{k}={v}" for k, v in combo.items()]
+    weak = {t[2] for t in orc.taken if t[3]}
+    for (k, c) in orc.log:
+        if k in weak:
+            continue
+        if k.startswith("truth:"):
+            bits.append(f"{k[6:][:40]} is {'true' if c == 0 else 'false'}")
+        elif k.startswith("try@") and c:
+            bits.append(f"statement {c} of the try block raises")
+    return ", ".join(bits) or "the only path"
+
+
+class _Agg:
+    """one obligation decided over many paths: refuted if any path refutes, undecided if any path is undecided, else proved"""
+
+    def __init__(self):
+        self.items = {}
+
+    def add(self, rule, construct, scope, node, verdict, detail, bad_detail):
+        k = (rule, construct, scope.qualname)
+        it = self.items.setdefault(k, {"scope": scope, "node": node, "bad": [], "und": [], "ok": 0, "detail": detail})
+        if detail and not it["detail"]:
+            it["detail"] = detail
+        if verdict is True:
+            it["ok"] += 1
+        elif verdict is False:
+            it["bad"].append(bad_detail)
+            if node is not None:
+                it["node"] = node
+        else:
+            it["und"].append(bad_detail)
+
+    def flush(self, ctx):
+        for (rule, construct, _q), it in self.items.items():
+            if it["bad"]:
+                ctx.refuted(rule, it["scope"], it["node"], construct=construct, detail=it["bad"][0] + (f" (+{len(it['bad']) - 1} more paths)" if len(it["bad"]) > 1 else ""))
+            elif it["und"]:
+                ctx.undecided(rule, it["scope"], it["node"], construct=construct, detail=it["und"][0])
+            else:
+                ctx.proved(rule, it["scope"], it["node"], construct=construct, detail=f"{it['detail']} [{it['ok']} path(s)]")
+
+
+def _node_in(scope, node):
+    """node if it lies inside the scope's own source (for locations), else None"""
+    if node is None:
+        return None
+    for n in ast.walk(scope.node):
+        if n is node:
+            return node
+    return None
+
+
+# ------------------------------------------------------------------ D1: the warm-start functions
+
+def _int_default_params(sc):
+    out = {}
+    for p_ in sc.params():
+        d = sc.default_of(p_)
+        if isinstance(d, ast.Constant) and isinstance(d.value, int) and not isinstance(d.value, bool):
+            out[p_] = d.value
+    return out
+
+
+def _ws_functions(ctx):
+    """public warm-start entry points: module-level functions of WarmStart whose first parameters are (objective, x, new parameters)"""
+    mod = ctx.need_module(WS)
+    funcs = [c for c in mod.scope.children if c.kind == "function"]
+    helpers = set()
+    for c in funcs:
+        for n in ast.walk(c.node):
+            if isinstance(n, ast.Call):
+                for v in ctx.repo.resolve(n.func, c):
+                    if isinstance(v, FuncVal) and v.scope in funcs and v.scope is not c:
+                        helpers.add(v.scope.name)
+    out = [c for c in funcs if not c.name.startswith("_") and c.name not in helpers and len(c.params()) >= 3]
+    if not out:
+        raise Incomplete("no warm-start function found in optimism.WarmStart")
+    return out
+
+
+def _run_ws(ctx, sc, mode, kwargs):
+    inline = _inline_policy(ctx)
+    mut = _mutable(ctx)
+
+    def run(orc):
+        m = Machine(ctx.repo, orc, inline, mut)
+        t = _params_type(m, ctx)
+        pold, pnew = _params(m, t, "pold"), _params(m, t, "pnew")
+        obj = _spec_objective(m, "objective", pold, scaled=False, cls=ctx.repo.find(f"{OBJ}:Objective"))
+        X = m.sym("X")
+        pn = pnew if mode == "record" else m.sym("qnew")
+        res = {"m": m, "obj": obj, "X": X, "pold": pold, "pnew": pnew, "pn": pn, "out": None, "status": "ret"}
+        try:
+            res["out"] = m.call_closure(Closure(sc, m.modenv(sc.module)), [obj, X, pn], dict(kwargs))
+        except PathEnd as ex:
+            res["status"] = "raised"
+            res["why"] = str(ex)
+        return res
+    return explore(run, 64)
+
 
 def d1(ctx):
     rule = "D1/T7-predictor-sign"
-    for fname in ("warm_start_increment", "warm_start_increment_jax_safe"):
-        ws = ctx.need(f"{WS}:{fname}")
-        cfg = cfg_of(ws)
-        ps = ws.params()
-        obj, xn, pnew = ps[0], ps[1], ps[2]
-        rets = cfg.returns()
-        if len(rets) == 1 and isinstance(rets[0].ast.value, ast.UnaryOp) and isinstance(rets[0].ast.value.op, ast.USub):
-            ctx.refuted(rule, ws, rets[0].ast, construct=f"{fname}:returns-cg-solution",
-                        detail=f"{fname} returns the negated solution `{src(rets[0].ast.value)}`: the predictor would point away from the new solution")
-            continue
-        if len(rets) != 1 or not isinstance(rets[0].ast.value, ast.Name):
-            ctx.undecided(rule, ws, None, construct=f"{fname}:return", detail="unexpected return shape")
-            continue
-        r = rets[0]
-        dxn = r.ast.value.id
-        dd = single_def(cfg, r, dxn)
-        call = dd.ast.value if dd is not None and isinstance(dd.ast, ast.Assign) else None
-        ok = isinstance(call, ast.Call) and dotted(call.func) == "cg" and isinstance(dd.ast.targets[0], ast.Tuple) \
-            and isinstance(dd.ast.targets[0].elts[0], ast.Name) and dd.ast.targets[0].elts[0].id == dxn
-        ctx.decide(rule, ok, ws, r.ast, construct=f"{fname}:returns-cg-solution", detail="returns the CG solution unnegated",
-                   bad_detail=f"{fname} returns `{dxn}` defined by `{src(dd.ast) if dd else '?'}`, not the (unnegated) CG solution")
-        if not ok:
-            continue
-        A, b = call.args[0], call.args[1]
-        # operator: LinearOperator(..., matvec=op) with op = lambda v: objective.hessian_vec(x, v)
-        Ae = expand(cfg, dd, A)
-        mv = None
-        if isinstance(Ae, ast.Call):
-            for k in Ae.keywords:
-                if k.arg == "matvec":
-                    mv = k.value
-            if mv is None and len(Ae.args) > 1:
-                mv = Ae.args[1]
-        okop = False
-        shown = src(mv)
-        if isinstance(mv, ast.Lambda):
-            okop = same(mv.body, f"{obj}.hessian_vec({xn}, {mv.args.args[0].arg})")
-        else:
-            # try/except form of the jax-safe variant: every definition of the operator is +hessian_vec (maybe .primal)
-            if isinstance(A, ast.Name):
-                Ad = single_def(cfg, dd, A.id)
-                if Ad is not None and isinstance(Ad.ast.value, ast.Call):
-                    for k in Ad.ast.value.keywords:
-                        if k.arg == "matvec" and isinstance(k.value, ast.Name):
-                            defs = cfg.reaching(Ad, k.value.id)
-                            okop = bool(defs) and all(isinstance(d.ast.value, ast.Lambda) and
-                                                      src(d.ast.value.body).replace(".primal", "") == f"{obj}.hessian_vec({xn}, {d.ast.value.args.args[0].arg})"
-                                                      for d in defs)
-                            shown = "; ".join(src(d.ast.value) for d in defs)
-        ctx.decide(rule, okop, ws, call, construct=f"{fname}:operator-is-hessian", detail=f"operator {shown}",
-                   bad_detail=f"linear operator of the warm start is `{shown}`, not v -> +{obj}.hessian_vec({xn}, v)")
-        # right-hand side: b = jacobian_p[k]_vec(x, dp) with dp = p_old[k] - p_new[k]
-        bdefs = cfg.reaching(dd, b.id) if isinstance(b, ast.Name) else []
-        n_b = 0
-        for bd in bdefs:
-            v = bd.ast.value if isinstance(bd.ast, ast.Assign) else None
-            if isinstance(v, ast.Attribute) and v.attr == "primal":
-                continue     # b = b.primal
-            if not (isinstance(v, ast.Call) and isinstance(v.func, ast.Attribute) and len(v.args) == 2):
-                ctx.undecided(rule, ws, bd.ast, construct=f"{fname}:rhs", detail=f"rhs defined as {src(bd.ast)}")
-                continue
-            n_b += 1
-            meth = v.func.attr
-            slot = {"jacobian_p_vec": 0, "jacobian_p2_vec": 2}.get(meth)
-            dpe = expand(cfg, bd, v.args[1])
-            # facts on index
-            idx_fact = None
-            for (c, lab) in cfg.edge_facts(bd):
-                if c.kind == "cond" and isinstance(c.ast, ast.Compare) and isinstance(c.ast.left, ast.Name) and c.ast.left.id == "index" and lab:
-                    idx_fact = const_value(c.ast.comparators[0])
-            okx = same(v.args[0], xn)
-            if "index" in ps:
-                want = f"{obj}.p[index] - {pnew}[index]"
-                okdp = same(dpe, want)
-                okslot = slot is not None and idx_fact == slot
-                detail = f"b = {meth}({xn}, {src(dpe)}) under index == {idx_fact}"
-            else:
-                want = f"{obj}.p[0] - {pnew}"
-                okdp = same(dpe, want)
-                okslot = slot == 0
-                detail = f"b = {meth}({xn}, {src(dpe)})"
-            ctx.decide(rule, okx and okdp and okslot, ws, bd.ast, construct=f"{fname}:rhs:{meth}",
-                       detail=detail,
-                       bad_detail=f"warm-start right-hand side {detail}: expected the slot-{slot} Jacobian-vector product of (old - new) "
-                                  f"parameters `{want}` at `{xn}`")
-        if n_b == 0:
-            ctx.undecided(rule, ws, None, construct=f"{fname}:rhs", detail="no right-hand side definition found")
-    # drivers add the increment
-    for q, _ in DRIVERS:
-        sc = ctx.need(q)
-        cfg = cfg_of(sc)
-        found = 0
-        for n in cfg.nodes:
-            if n.kind != "stmt" or n.ast is None:
-                continue
-            if not any(isinstance(c, ast.Call) and (dotted(c.func) or "").endswith("warm_start_increment") for c in ast.walk(n.ast)):
-                continue
-            found += 1
-            a = n.ast
-            if isinstance(a, ast.AugAssign):
-                ok = isinstance(a.op, ast.Add) and isinstance(a.value, ast.Call)
-                ctx.decide(rule, ok, sc, a, construct="driver-adds-increment", detail=src(a)[:70],
-                           bad_detail=f"`{src(a)[:90]}` does not add the warm-start increment")
-            elif isinstance(a, ast.Assign) and isinstance(a.targets[0], ast.Name):
-                nm = a.targets[0].id
-                uses = [m for m in cfg.nodes if m.kind == "stmt" and isinstance(m.ast, ast.AugAssign) and isinstance(m.ast.value, ast.Name)
-                        and m.ast.value.id == nm and cfg.dominates(n, m)]
-                ok = len(uses) == 1 and isinstance(uses[0].ast.op, ast.Add)
-                # and the increment is added to the scaled start point that feeds the solver
-                ctx.decide(rule, ok, sc, uses[0].ast if uses else a, construct="driver-adds-increment",
-                           detail=src(uses[0].ast) if uses else "", bad_detail=f"the increment `{nm}` is not added (`+=`) to the start point exactly once")
-            else:
-                ctx.undecided(rule, sc, a, construct="driver-adds-increment", detail=src(a)[:80])
-        if found == 0 and "bound_constrained" not in q and "augmented" not in q:
-            ctx.undecided(rule, sc, None, construct="driver-adds-increment", detail="no warm start in this driver")
-
-
-# ------------------------------------------------------------------ D2
-
-def d2(ctx):
-    rule = "D2/T2-parameters-before-solve"
-    for q, solver in DRIVERS:
-        def is_solve(n, solver=solver):
-            return any(isinstance(c, ast.Call) and (dotted(c.func) or "").split(".")[-1] == solver for c in ast.walk(n.ast))
-        tr.params_before_solve(ctx, rule, q, 0, is_solve)
-    # the bound-constrained front end hands the same p to the AL driver and disables its warm start
-    bcs = ctx.need("optimism.BoundConstrainedSolver:bound_constrained_solve")
-    al = ctx.need("optimism.AlSolver:augmented_lagrange_solve")
-    for c in calls_in(bcs):
-        if (dotted(c.func) or "").endswith("augmented_lagrange_solve"):
-            p = actual(c, al.params(), "p")
-            w = actual(c, al.params(), "useWarmStart")
-            ok = same(p, "p") and isinstance(w, ast.Constant) and w.value is False
-            ctx.decide(rule, ok, bcs, c, construct="front-end-forwards-p-no-second-warm-start",
-                       detail="AL driver gets the same p and useWarmStart=False",
-                       bad_detail=f"AL driver called with p={src(p)}, useWarmStart={src(w)}: parameters or predictor would be applied twice / stale")
-
-
-# ------------------------------------------------------------------ D3
-
-def d3(ctx):
-    rule = "D3/T6-scaling-transparent"
-    for q, solver in DRIVERS:
-        if "augmented_lagrange_solve" in q:
-            continue
-        sc = ctx.need(q)
-        cfg = cfg_of(sc)
-        obj = sc.params()[0]
-        x0 = sc.params()[1]
-        # entry: the point handed to the solver derives from obj.scaling * x0
-        for n in cfg.nodes:
-            if n.kind != "stmt" or n.ast is None:
-                continue
-            for c in [c for c in ast.walk(n.ast) if isinstance(c, ast.Call) and (dotted(c.func) or "").split(".")[-1] == solver]:
-                arg = c.args[1] if len(c.args) > 1 else None
-                if not isinstance(arg, ast.Name):
-                    ctx.undecided(rule, sc, c, construct="entry-scaled", detail="start point argument is not a name")
-                    continue
-                defs = cfg.reaching(n, arg.id)
-                base = [d for d in defs if isinstance(d.ast, ast.Assign)]
-                aug = [d for d in defs if isinstance(d.ast, ast.AugAssign)]
-                ok = len(base) == 1 and same(base[0].ast.value, f"{obj}.scaling * {x0}") and \
-                    all(isinstance(d.ast.op, ast.Add) for d in aug)
-                ctx.decide(rule, ok, sc, c, construct="entry-scaled",
-                           detail=f"solver starts from {obj}.scaling*{x0} (+ warm-start increment)",
-                           bad_detail=f"start point `{arg.id}` is defined by {[src(d.ast) for d in defs]}, not {obj}.scaling*{x0}")
-                # everything that linearises the scaled objective before the solve must do so at the scaled point
-                for c2 in ast.walk(sc.node):
-                    if not isinstance(c2, ast.Call):
-                        continue
-                    last = (dotted(c2.func) or "").split(".")[-1]
-                    pt = None
-                    if last == "warm_start_increment" and len(c2.args) >= 2:
-                        pt = c2.args[1]
-                    elif last == "update_precond" and len(c2.args) >= 1:
-                        pt = c2.args[0]
-                    if pt is None:
-                        continue
-                    okp = isinstance(pt, ast.Name) and pt.id == arg.id
-                    ctx.decide(rule, okp, sc, c2, construct=f"{last}-at-the-scaled-point",
-                               detail=f"{last} is evaluated at `{src(pt)}`, the scaled start point",
-                               bad_detail=f"{last} is evaluated at `{src(pt)}` but the objective lives in the scaled variables `{arg.id}` = {obj}.scaling*{x0}: "
-                                          f"Hessian and mixed derivative of the warm start / preconditioner are taken at the wrong point whenever scaling != 1")
-        for r in cfg.returns():
-            v = r.ast.value
-            first = v.elts[0] if isinstance(v, ast.Tuple) else v
-            ok = False
-            if isinstance(first, ast.BinOp) and isinstance(first.op, ast.Mult):
-                sides = [first.left, first.right]
-                inv = [s for s in sides if same(s, f"{obj}.invScaling")]
-                other = [s for s in sides if not same(s, f"{obj}.invScaling")]
-                if inv and other and isinstance(other[0], ast.Name):
-                    d = single_def(cfg, r, other[0].id)
-                    ok = d is not None and solver in src(d.ast)
-            ctx.decide(rule, ok, sc, r.ast, construct="exit-unscaled",
-                       detail=f"returns {obj}.invScaling * (solver result)",
-                       bad_detail=f"driver returns `{src(first)}`, not {obj}.invScaling times the solver's result")
-    # TrustRegionSPG bounds scaled (also part of C05.D3)
-    spg = ctx.need("optimism.TrustRegionSPG:solve")
-    scfg = cfg_of(spg)
-    for nm in [p for p in spg.params() if "bound" in p.lower()]:
-        uses = [n for n in scfg.nodes if n.kind == "stmt" and isinstance(n.ast, ast.Assign) and nm in {x.id for x in ast.walk(n.ast.value) if isinstance(x, ast.Name)}]
-        ok = len(uses) == 1 and same(uses[0].ast.value, f"objective.scaling * {nm}")
-        ctx.decide(rule, ok, spg, uses[0].ast if uses else None, construct=f"bounds-scaled:{nm}",
-                   detail=f"{nm} enters as objective.scaling*{nm}", bad_detail=f"bound `{nm}` is not scaled like the iterate: {[src(u.ast) for u in uses]}")
-    # ScaledObjective / BoundConstrainedObjective
-    for q in (f"{OBJ}:ScaledObjective.__init__", "optimism.BoundConstrainedObjective:BoundConstrainedObjective.__init__"):
-        init = ctx.need(q)
-        icfg = cfg_of(init)
-        kids = {c.name: c for c in init.children if c.kind == "function"}
-        so = kids.get("scaled_objective")
-        if so is None:
-            raise Incomplete(f"{q}: scaled_objective closure not found")
-        socfg = cfg_of(so)
-        r = socfg.returns()
-        e = expand(socfg, r[0], r[0].ast.value) if r else None
-        xb = so.params()[0]
-        ip = init.params()                     # self, objective_func, x0, p, ...
-        selfn, objf, x0n = ip[0], ip[1], ip[2]
-        # roles: s = the factor of x0 in the start point handed to the base class, inv = the name defined as 1/s
-        sup = [c for c in calls_in(init) if isinstance(c.func, ast.Attribute) and c.func.attr == "__init__"]
-        s_name = None
-        for c in sup:
-            node = [n for n in icfg.nodes if n.ast is not None and any(x is c for x in ast.walk(n.ast))][0]
-            for a in c.args:
-                if isinstance(a, ast.Name):
-                    ex_ = expand(icfg, node, a, depth=1)
-                    if isinstance(ex_, ast.BinOp) and isinstance(ex_.op, ast.Mult):
-                        for l_, r_ in ((ex_.left, ex_.right), (ex_.right, ex_.left)):
-                            if isinstance(r_, ast.Name) and r_.id == x0n and isinstance(l_, ast.Name):
-                                s_name = l_.id
-        inv_name = None
-        # inv = the factor applied to the scaled iterate inside the scaled objective closure
-        if isinstance(e, ast.Call) and e.args and isinstance(e.args[0], ast.BinOp) and isinstance(e.args[0].op, ast.Mult):
-            for l_, r_ in ((e.args[0].left, e.args[0].right), (e.args[0].right, e.args[0].left)):
-                if isinstance(r_, ast.Name) and r_.id == xb and isinstance(l_, ast.Name):
-                    inv_name = l_.id
-        if not s_name or not inv_name:
-            ctx.undecided(rule, init, None, construct=f"{init.cls.name}:roles", detail=f"scaling variable ({s_name}) / its reciprocal ({inv_name}) not identified")
-            continue
-        ok = len(r) == 1 and (same(e, f"{objf}({inv_name} * {xb}, {so.params()[1]})"))
-        ctx.decide(rule, ok, so, r[0].ast if r else None, construct=f"{init.cls.name}:evaluates-at-invScaling*xBar",
-                   detail=f"scaled objective = objective_func(invScaling*{xb}, p)",
-                   bad_detail=f"scaled objective returns `{src(e)}`, not objective_func(invScaling*{xb}, p)")
-        # invScaling = 1/scaling on the scaled branch; both 1 (or ones) on the unscaled branch
-        inv_defs = [n for n in icfg.nodes if n.kind == "stmt" and isinstance(n.ast, ast.Assign) and
-                    any(isinstance(t, ast.Name) and t.id == inv_name for t in n.ast.targets)]
-        for k_, n in enumerate(inv_defs):
-            v = n.ast.value
-            A = Algebra()
+    for sc in _ws_functions(ctx):
+        ctx.touch(sc)
+        fname = sc.name
+        agg = _Agg()
+        idx = _int_default_params(sc)
+        try:
+            mode = "record"
             try:
-                good = A.equal(A.lower(v) * A.lower(ast.Name(id=s_name, ctx=ast.Load())), A.const(1))
-            except NotPolynomial:
-                good = False
-            trivial = (const_value(v) == 1.0) or same(v, f"np.ones_like({x0n})")
-            if trivial:
-                # sibling `scaling` on the same branch must be trivial too
-                sdefs = [m for m in icfg.nodes if m.kind == "stmt" and isinstance(m.ast, ast.Assign) and
-                         any(isinstance(t, ast.Name) and t.id == s_name for t in m.ast.targets) and
-                         [(c.idx, l) for (c, l) in icfg.edge_facts(m)] == [(c.idx, l) for (c, l) in icfg.edge_facts(n)]]
-                good = bool(sdefs) and all(const_value(m.ast.value) == 1.0 or same(m.ast.value, f"np.ones_like({x0n})") for m in sdefs)
-            ctx.decide(rule, good, init, n.ast, construct=f"{init.cls.name}:invScaling=1/scaling:{'trivial' if trivial else 'reciprocal'}",
-                       detail=f"invScaling = {src(v)} is the reciprocal of scaling",
-                       bad_detail=f"invScaling = {src(v)} is not the reciprocal of `{s_name}` on its branch")
-        # start point and stored attributes
-        for c in sup:
-            node = [n for n in icfg.nodes if n.ast is not None and any(x is c for x in ast.walk(n.ast))][0]
-            f_arg = c.args[0]
-            okx = any(same(expand(icfg, node, a), f"{s_name} * {x0n}") for a in c.args if isinstance(a, ast.Name))
-            okf = isinstance(f_arg, ast.Name) and f_arg.id == so.name
-            ctx.decide(rule, okx and okf, init, c, construct=f"{init.cls.name}:base-init",
-                       detail="base class initialised with the scaled objective at scaling*x0",
-                       bad_detail=f"base class initialised as `{src(c)[:100]}`")
-        for attr, nm_ in (("scaling", s_name), ("invScaling", inv_name)):
-            st = [s_ for s_ in walk_local(init.node) if isinstance(s_, ast.Assign) and isinstance(s_.targets[0], ast.Attribute)
-                  and s_.targets[0].attr == attr and isinstance(s_.targets[0].value, ast.Name) and s_.targets[0].value.id == selfn]
-            ok = len(st) == 1 and same(st[0].value, nm_)
-            ctx.decide(rule, ok, init, st[0] if st else None, construct=f"{init.cls.name}:stores-{attr}",
-                       detail=f"self.{attr} = {attr}", bad_detail=f"self.{attr} is set to `{src(st[0].value) if st else '?'}`")
-        # the preconditioner strategy gets invScaling
-        for c in calls_in(init):
-            if isinstance(c.func, ast.Name) and c.func.id == "ScaledPrecondStrategy":
-                ok = any(isinstance(a, ast.Name) and a.id == inv_name for a in c.args) and not any(isinstance(a, ast.Name) and a.id == s_name for a in c.args)
-                ctx.decide(rule, ok, init, c, construct=f"{init.cls.name}:precond-gets-invScaling",
-                           detail="ScaledPrecondStrategy(..., invScaling, ...)", bad_detail=f"scaled preconditioner built as `{src(c)[:100]}`")
-        # scaling = sqrt(diag K0), K0 = first preconditioner of the given strategy
-        for n in icfg.nodes:
-            if n.kind == "stmt" and isinstance(n.ast, ast.Assign) and isinstance(n.ast.targets[0], ast.Name) and n.ast.targets[0].id == s_name \
-                    and isinstance(n.ast.value, ast.Call) and (dotted(n.ast.value.func) or "").endswith("sqrt"):
-                ex_ = expand(icfg, n, n.ast.value)
-                ok = bool(re.fullmatch(r"np\.sqrt\(\w+\.precond_at_attempt\(0\)\.diagonal\(\)\)", src(ex_).replace(" ", "")))
-                ctx.decide(rule, ok, init, n.ast, construct=f"{init.cls.name}:scaling=sqrt(diag K)", detail=src(n.ast),
-                           bad_detail=f"scaling is `{src(ex_)}`, not sqrt of the diagonal of the first preconditioner")
-    # ScaledPrecondStrategy: congruence with the same diagonal, initialised at the unscaled point
-    for q, diag in ((f"{OBJ}:ScaledPrecondStrategy", "invScaling"), ("optimism.BoundConstrainedObjective:ScaledPrecondStrategy", "diagScaling")):
+                _run_ws(ctx, sc, "record", {})
+            except Unsupported:
+                mode = "slot"       # the third argument is the new value of one slot, not the whole parameter tuple
+            scenarios = [({}, None)]
+            if idx and mode == "record":
+                (ip, dflt), = list(idx.items())[:1]
+                m0 = Machine(ctx.repo)
+                nf = len(_params_type(m0, ctx).fields)
+                scenarios = [({}, dflt)] + [({ip: k}, k) for k in range(nf)]
+            n_ret = 0
+            for kw, slot in scenarios:
+                slot = 0 if slot is None else slot
+                for orc, r in _run_ws(ctx, sc, mode, kw):
+                    m = r["m"]
+                    label = _path_label({**kw}, orc)
+                    if r["status"] != "ret":
+                        continue
+                    n_ret += 1
+                    solves = [e for e in m.events if e["kind"] == "linsolve"]
+                    out = r["out"]
+                    if not solves or not m.is_numlike(out):
+                        agg.add(rule, f"{fname}:returns-cg-solution", sc, None, None, "", f"[{label}] no linear solve on this path / non-numeric result `{_show(m, out)}`")
+                        continue
+                    ev = solves[-1]
+                    X, pold = r["X"], r["pold"]
+                    pk_new = r["pnew"].values[slot] if mode == "record" else r["pn"]
+                    ga = _grad_atom(m, X, pold)
+                    meth = SLOT_METHOD.get(slot)
+                    cons = f"{fname}:rhs:{meth}" if meth else f"{fname}:rhs:slot{slot}"
+                    node = _node_in(sc, ev["node"])
+                    want_rhs = m.lin(("D", ga, (1, slot)), Num(m.num(pold.values[slot]).r - m.num(pk_new).r))
+                    want_op = ("D", ga, PROTOCOL["hessian_vec"])
+                    want = m.lin(("inv", want_op), want_rhs)         # = -H^-1 J_slot (p_new - p_old)
+                    d_ret = "returns the solution of the linear solve unnegated"
+                    d_op = "linear operator v -> +objective.hessian_vec(x, v) at the old parameters"
+                    d_rhs = f"right-hand side = d(grad)/dp[{slot}] applied to (old - new) parameters of slot {slot}"
+                    if m.equal(out, want):
+                        # the value is the predictor: however operator, right-hand side and result were arranged, they compose correctly
+                        agg.add(rule, f"{fname}:returns-cg-solution", sc, node, True, d_ret, "")
+                        agg.add(rule, f"{fname}:operator-is-hessian", sc, node, True, d_op, "")
+                        agg.add(rule, cons, sc, node, True, d_rhs, "")
+                        continue
+                    # the value is not -H^-1 J (p_new - p_old): say which ingredient is off
+                    ok = m.equal(out, ev["sol"])
+                    neg = (not ok) and m.equal(out, Num(-m.num(ev["sol"]).r))
+                    rhs_comp = m.is_numlike(ev["rhs"]) and m.equal(Num(m.num(ev["rhs"]).r / m.A.const(ev["coef"])), want_rhs)
+                    rhs_plain = m.is_numlike(ev["rhs"]) and m.equal(ev["rhs"], want_rhs)
+                    okop = ev["op"] == want_op and (ev["coef"] == 1 or rhs_comp)
+                    okb = rhs_comp or (rhs_plain and not okop)          # a correct right-hand side with a scaled operator: the operator is to blame
+                    culprit = True
+                    agg.add(rule, f"{fname}:returns-cg-solution", sc, node, _verdict(ok, neg or _precise(m, out, ev["sol"])), d_ret,
+                            f"[{label}] {fname} returns " + ("the negated solution of its linear solve: the predictor would point away from the new solution" if neg
+                                                             else f"`{_show(m, out)}`, not the solution `{_show(m, ev['sol'])}` of its linear solve"))
+                    agg.add(rule, f"{fname}:operator-is-hessian", sc, node, _verdict(okop, _precise(m, ev["probe"])), d_op,
+                            f"[{label}] the linear operator of the warm start maps v to `{_show(m, ev['probe'])}`, not to +objective.hessian_vec(x, v) "
+                            f"(the Hessian at the current point and the objective's old parameters)")
+                    agg.add(rule, cons, sc, node, _verdict(okb and culprit, _precise(m, ev["rhs"])), d_rhs,
+                            f"[{label}] warm-start right-hand side is `{_show(m, ev['rhs'])}`" + (f" for the operator {ev['coef']}*H" if ev["coef"] != 1 else "") +
+                            f"; expected the slot-{slot} Jacobian-vector product of (old - new) parameters at x: `{_show(m, want_rhs)}` "
+                            f"(wrong sign, slot or point makes the predictor miss the new solution)")
+            if n_ret == 0:
+                ctx.undecided(rule, sc, None, construct=f"{fname}:returns-cg-solution", detail="no path returns a value")
+            agg.flush(ctx)
+        except ERR as ex:
+            ctx.undecided(rule, sc, None, construct=f"{fname}:interpretation", detail=f"cannot interpret {fname}: {type(ex).__name__}: {ex}")
+
+
+# ------------------------------------------------------------------ drivers: D1 (increment added), D2, D3 (entry / exit / points / bounds)
+
+def _bool_params(sc):
+    out = []
+    for p_ in sc.params() + sc.kwonly():
+        d = sc.default_of(p_)
+        if isinstance(d, ast.Constant) and isinstance(d.value, bool):
+            out.append(p_)
+    return out
+
+
+def _driver_paths(ctx, q, scaled, max_paths=1500):
+    sc = ctx.need(q)
+    ps = sc.params()
+    if len(ps) < 3:
+        raise Incomplete(f"{q}: expected (objective, x0, p, ...)")
+    flags = _bool_params(sc)
+    inline = _inline_policy(ctx)
+    mut = _mutable(ctx)
+    wsmod = ctx.need_module(WS)
+    ws_quals = [c.qualname for c in wsmod.scope.children if c.kind == "function"]
+    out = []
+    for combo in itertools.product([True, False], repeat=len(flags)):
+        cdict = dict(zip(flags, combo))
+
+        def run(orc, cdict=cdict):
+            m = Machine(ctx.repo, orc, inline, mut)
+            t = _params_type(m, ctx)
+            pold, pnew = _params(m, t, "pold"), _params(m, t, "pnew")
+            obj = _spec_objective(m, "objective", pold, scaled, cls=ctx.repo.find(f"{OBJ}:Objective"))
+            X0 = m.sym("X0")
+            wsdepth = [0]
+
+            def watch(mm, phase, info):
+                if phase == "enter":
+                    wsdepth[0] += 1
+                    if wsdepth[0] > 1:
+                        return None
+                    ev = {"kind": "ws", "fn": info["scope"].qualname, "args": dict(info["env"].vars), "node": info["node"], "value": None,
+                          "returned": False, "p_at_call": obj.attrs.get("p"), "idx": len(mm.events)}
+                    mm.events.append(ev)
+                    return ev
+                wsdepth[0] -= 1
+                if info["token"] is not None:
+                    info["token"]["value"] = info["value"]
+                    info["token"]["returned"] = True
+                return None
+            for wq in ws_quals:
+                m.watch[wq] = watch
+
+            def watch_driver(mm, phase, info):
+                # another load-step driver is entered (interpreted in line): a hand-off of the objective like a solver call
+                if phase == "enter" and info["scope"] is not sc:
+                    mm.events.append({"kind": "handoff", "callee": info["scope"].qualname, "node": info["node"], "p": obj.attrs.get("p"),
+                                      "args": dict(info["env"].vars), "idx": len(mm.events)})
+                return None
+            for dq, _sc in DRIVERS:
+                if dq != q:
+                    m.watch[dq] = watch_driver
+            kwargs = {}
+            args = [obj, X0, pnew]
+            for p_ in ps[3:] + sc.kwonly():
+                if p_ in cdict:
+                    kwargs[p_] = cdict[p_]
+                else:
+                    kwargs[p_] = Obj(p_, opaque=True)
+            res = {"m": m, "obj": obj, "X0": X0, "pold": pold, "pnew": pnew, "out": None, "status": "ret", "combo": cdict,
+                   "sigma": m.num(obj.attrs["scaling"])}
+            try:
+                res["out"] = m.call_closure(Closure(sc, m.modenv(sc.module)), args, kwargs)
+            except PathEnd as ex:
+                res["status"] = "raised"
+                res["why"] = str(ex)
+            res["visited"] = set(m.visited)
+            return res
+        for orc, r in explore(run, max_paths):
+            out.append((orc, r))
+    return sc, out
+
+
+def _leaves_with(m, v, atom, out=None):
+    """minimal numeric sub-values of v in which `atom` occurs directly"""
+    out = out if out is not None else []
+    if isinstance(v, OpaqueAttr) or (isinstance(v, Obj) and v.opaque):
+        try:
+            v = m.num(v)
+        except Unsupported:
+            return out
+    if isinstance(v, Num):
+        if atom in v.r.atoms():
+            out.append(v)
+        else:
+            for a in v.r.atoms():
+                k, ex = m.info.get(a, ("sym", {}))
+                for x in ex.get("args", ()):
+                    _leaves_with(m, x, atom, out)
+    elif isinstance(v, Record):
+        for x in v.values:
+            _leaves_with(m, x, atom, out)
+    elif isinstance(v, (tuple, list)):
+        for x in v:
+            _leaves_with(m, x, atom, out)
+    elif isinstance(v, dict):
+        for x in v.values():
+            _leaves_with(m, x, atom, out)
+    return out
+
+
+def _solution_atom(m, a):
+    k, ex = m.info.get(a, ("sym", {}))
+    if k in ("ret", "havoc"):
+        return True
+    if k == "app" and ex.get("f") == "item":
+        b = ex["args"][0]
+        if isinstance(b, Num):
+            ats = list(b.r.atoms())
+            return len(ats) == 1 and _solution_atom(m, ats[0])
+    return False
+
+
+def drivers(ctx):
+    R1, R2, R3 = "D1/T7-predictor-sign", "D2/T2-parameters-before-solve", "D3/T6-scaling-transparent"
+    inlined_al = {}
+    g_executed, g_visited = set(), set()
+    for q, scaled in DRIVERS:
+        try:
+            sc, paths = _driver_paths(ctx, q, scaled)
+        except Incomplete:
+            raise
+        except ERR as ex:
+            scq = ctx.need(q)
+            for rule in (R1, R2) + ((R3,) if scaled else ()):
+                ctx.undecided(rule, scq, None, construct="driver-interpretation", detail=f"cannot interpret {scq.name}: {type(ex).__name__}: {ex}")
+            continue
+        agg = _Agg()
+        n_use = n_warm = 0
+        bound_params = [p_ for p_ in sc.params() if "bound" in p_.lower() and p_ not in sc.params()[:3]]
+        for orc, r in paths:
+            m, obj, X0, pold, pnew, sigma = r["m"], r["obj"], r["X0"], r["pold"], r["pnew"], r["sigma"]
+            label = _path_label(r["combo"], orc)
+            evs = m.events
+            uses = [e for e in evs if e["kind"] in ("use", "ocall") and id(obj) in e["snap"] and not (e["kind"] == "ocall" and e["obj"] is obj)]
+            wss = [e for e in evs if e["kind"] == "ws"]
+            pres = [e for e in evs if e["kind"] == "precond"]
+            sx0 = Num(m.A.norm(sigma.r * X0.r))
+            (x0a,) = X0.r.atoms()
+            for wq in r["visited"]:
+                s_ = ctx.repo.find(wq)
+                if s_ is not None and s_.module.name != WS:
+                    ctx.touch(s_)
+            # ---- D2: parameters current when the objective is handed to the solver (the hand-offs whose result flows into the
+            # returned value), and on return
+            out_atoms = m.atoms_deep(r["out"]) if r["status"] == "ret" else set()
+            for e in uses:
+                if e["kind"] != "use" or e.get("discarded") or not (set(e["ret"].r.atoms()) & out_atoms):
+                    continue
+                n_use += 1
+                p_seen = e["snap"][id(obj)][1].get("p")
+                ok = m.same(p_seen, pnew)
+                agg.add(R2, "params-assigned-before-solve", sc, _node_in(sc, e["node"]), _verdict(ok, _precise(m, p_seen)),
+                        "the objective carries the new parameters whenever it is handed to the solver and when the driver returns",
+                        f"[{label}] the objective is handed to `{str(e.get('callee'))[:60]}` while its parameters are `{_show(m, p_seen, 60)}`, not the "
+                        f"new `p`: a path reaches the nonlinear solve without `objective.p = p`, so the solve (and its success flag) would refer to the "
+                        f"previous load step's parameters")
+            for e in [e for e in evs if e["kind"] == "handoff" and any(v is obj for v in e["args"].values())]:
+                n_use += 1
+                ok = m.same(e["p"], pnew)
+                agg.add(R2, "params-assigned-before-solve", sc, _node_in(sc, e["node"]), _verdict(ok, _precise(m, e["p"])), "",
+                        f"[{label}] the objective is handed to the driver `{e['callee'].split(':')[-1]}` while its parameters are `{_show(m, e['p'], 60)}`, not the new `p` "
+                        f"(callbacks and the preconditioner refresh in between would see the previous load step's parameters)")
+            if r["status"] == "ret":
+                p_end = obj.attrs.get("p")
+                ok = m.same(p_end, pnew)
+                agg.add(R2, "params-assigned-before-solve", sc, None, _verdict(ok, _precise(m, p_end)),
+                        "the objective carries the new parameters whenever it is handed to the solver / a callback and when the driver returns",
+                        f"[{label}] when the driver returns the objective's parameters are `{_show(m, p_end, 60)}`, not the new `p`")
+            for e in [e for e in evs if e["kind"] == "set" and e["obj"] is obj and e["attr"] == "p"]:
+                ok = m.same(e["value"], pnew)
+                agg.add(R2, "params-assigned-before-solve", sc, _node_in(sc, e["node"]), _verdict(ok, _precise(m, e["value"])), "",
+                        f"[{label}] the objective's parameters are assigned `{_show(m, e['value'], 60)}`, not the parameters the caller asked to solve for")
+            # ---- the warm start
+            warm_flag = r["combo"].get("useWarmStart")
+            for e in wss:
+                n_warm += 1
+                ok = m.same(e["p_at_call"], pold)
+                agg.add(R2, "warm-start-sees-old-params", sc, _node_in(sc, e["node"]), _verdict(ok, _precise(m, e["p_at_call"])),
+                        "the warm start runs while the objective still holds the previous parameters",
+                        f"[{label}] the objective's parameters are already `{_show(m, e['p_at_call'], 50)}` when the warm start runs, so the predictor sees "
+                        f"p_new - p_new = 0 (assigned before the warm start)")
+                vals = list(e["args"].values())
+                ok_o = any(v is obj for v in vals)
+                ok_p = any((isinstance(v, Record) and m.same(v, pnew)) or
+                           (m.is_numlike(v) and any(m.is_numlike(x) and m.same(v, x) for x in pnew.values)) for v in vals)
+                agg.add(R2, "warm-start-arguments", sc, _node_in(sc, e["node"]), _verdict(ok_o and ok_p, True),
+                        "warm start receives the driver's objective and the new parameters",
+                        f"[{label}] warm start is called with {{" + ", ".join(f'{k}: {_show(m, v, 40)}' for k, v in e['args'].items()) + "}: it must get the driver's objective and the new parameters `p`")
+                if scaled:
+                    xs = [v for v in vals if m.is_numlike(v) and not isinstance(v, (int, float)) and m.depends(m.num(v), x0a)]
+                    okx = len(xs) == 1 and m.equal(xs[0], sx0)
+                    agg.add(R3, "warm_start_increment-at-the-scaled-point", sc, _node_in(sc, e["node"]),
+                            _verdict(okx, all(_precise(m, x) for x in xs)),
+                            "warm start is linearised at scaling*x0, the point the scaled objective lives at",
+                            f"[{label}] the warm start is evaluated at `{_show(m, xs[0] if xs else None, 60)}` but the objective lives in the scaled variables "
+                            f"scaling*x0: Hessian and mixed derivative of the predictor are taken at the wrong point whenever scaling != 1")
+            if warm_flag is True and not wss and r["status"] == "ret":
+                agg.add(R1, "driver-adds-increment", sc, None, False, "", f"[{label}] useWarmStart is set but no warm start is computed on this path")
+            # ---- the start point handed to the solver
+            solves = [e for e in uses if e["kind"] == "use" and not e.get("discarded")]
+            start = first = None
+            for e in solves:
+                cands = []
+                for v in list(e["args"]) + list(e["kwargs"].values()):
+                    cands += _leaves_with(m, v, x0a)
+                if cands:
+                    first, start = e, cands[0]
+                    break
+            if first is None and solves:
+                first = solves[0]
+            wsval = None
+            done = [e for e in wss if e["returned"] and m.is_numlike(e["value"])]
+            if done:
+                wsval = m.num(done[0]["value"])
+            if first is not None:
+                node = _node_in(sc, first["node"])
+                d_add = "start point = (scaled) x0 + exactly the value the warm start returned (nothing without warm start)"
+                d_ent = "solver starts from objective.scaling*x0 (+ warm-start increment)"
+                if start is None:
+                    agg.add(R1, "driver-adds-increment", sc, node, None, "", f"[{label}] no argument of the solver call depends on x0")
+                    if scaled:
+                        agg.add(R3, "entry-scaled", sc, node, None, "", f"[{label}] no argument of the solver call depends on x0")
+                else:
+                    inc = wsval if wsval is not None else m.const(0)
+                    want = Num(m.A.norm(sx0.r + inc.r))
+                    prec = _precise(m, start)
+                    nz = not m.A.is_zero(inc.r)
+                    v_add = v_ent = True
+                    msg_add = msg_ent = ""
+                    if not m.equal(start, want):
+                        if nz and m.equal(start, Num(m.A.norm(sx0.r - inc.r))):
+                            v_add, msg_add = False, "the warm-start increment is subtracted from the start point (dx = -H^-1 J_p (p_new - p_old) must be added)"
+                        elif nz and m.equal(start, sx0):
+                            v_add, msg_add = False, "the warm-start increment is not added to the start point"
+                        else:
+                            base = Num(m.A.norm(start.r - inc.r))
+                            if _base_only_scaling_issue(m, base, X0):
+                                if scaled:
+                                    v_ent, msg_ent = False, f"apart from the increment it is `{_show(m, base, 60)}`, not objective.scaling*x0"
+                                else:
+                                    v_add, msg_add = False, f"apart from the increment it is `{_show(m, base, 60)}`, not x0"
+                            else:
+                                v_add = v_ent = _verdict(False, prec)
+                                msg_add = msg_ent = f"it is not {'objective.scaling*x0' if scaled else 'x0'} plus the value `{_show(m, inc, 60)}` the warm start returned"
+                    agg.add(R1, "driver-adds-increment", sc, node, v_add, d_add, f"[{label}] the solver starts from `{_show(m, start, 90)}`: {msg_add}")
+                    if scaled:
+                        agg.add(R3, "entry-scaled", sc, node, v_ent, d_ent, f"[{label}] the solver starts from `{_show(m, start, 90)}`: {msg_ent}")
+            # ---- preconditioner refresh at the current (scaled) start point
+            if scaled:
+                ws_idx = done[0]["idx"] if done else None
+                for e in pres:
+                    if e["obj"] is not obj or not m.is_numlike(e["point"]) or (first is not None and e["idx"] > first["idx"]):
+                        continue
+                    pt = m.num(e["point"])
+                    after = ws_idx is not None and e["idx"] > ws_idx
+                    want = Num(m.A.norm(sx0.r + wsval.r)) if (after and wsval is not None) else sx0
+                    if after and start is not None and not m.equal(want, start):
+                        want = start if m.equal(pt, start) else want
+                    ok = m.equal(pt, want)
+                    agg.add(R3, "update_precond-at-the-scaled-point", sc, _node_in(sc, e["node"]), _verdict(ok, _precise(m, pt)),
+                            "preconditioner is refreshed at the scaled start point",
+                            f"[{label}] update_precond is evaluated at `{_show(m, pt, 60)}` but the objective lives in the scaled variables (current start "
+                            f"point `{_show(m, want, 60)}`): the preconditioner is built at the wrong point whenever scaling != 1")
+            # ---- bounds scaled like the iterate
+            if scaled and first is not None and bound_params:
+                for bp in bound_params:
+                    leaves = []
+                    for v in list(first["args"]) + list(first["kwargs"].values()):
+                        leaves += _leaves_with(m, v, bp)
+                    raw = any(isinstance(v, Obj) and v.name == bp for v in m.objs_in([first["args"], first["kwargs"]]))
+                    want = Num(m.A.norm(sigma.r * m.A.atom(bp)))
+                    ok = bool(leaves) and all(m.equal(l, want) for l in leaves) and not raw
+                    agg.add(R3, f"bounds-scaled:{bp}", sc, _node_in(sc, first["node"]), _verdict(ok, all(_precise(m, l) for l in leaves)),
+                            f"{bp} reaches the solver as objective.scaling*{bp}",
+                            f"[{label}] bound `{bp}` reaches the solver as `{_show(m, leaves[0], 60) if leaves else ('the unscaled argument' if raw else 'nothing')}`; "
+                            f"it must be scaled like the iterate (objective.scaling*{bp})")
+            # ---- exit
+            if scaled and r["status"] == "ret":
+                out = r["out"]
+                first_out = out[0] if isinstance(out, tuple) and out else out
+                ok, prec, shown = False, False, _show(m, first_out, 70)
+                if m.is_numlike(first_out):
+                    o_ = m.num(first_out)
+                    sols = [a for a in m.atoms_deep(o_) if a in o_.r.atoms() and _solution_atom(m, a)]
+                    if len(sols) == 1:
+                        want = Num(m.A.norm(m.A.atom(sols[0]) / sigma.r))
+                        ok = m.equal(o_, want)
+                        prec = True
+                    elif not sols and _precise(m, o_):
+                        prec = True           # nothing of the solver's result is returned
+                agg.add(R3, "exit-unscaled", sc, None, _verdict(ok, prec), "returns objective.invScaling * (solver result)",
+                        f"[{label}] the driver returns `{shown}`, not objective.invScaling times the solver's result")
+            # ---- the front end hands the same parameters on and no second predictor is applied
+            if q.endswith(":bound_constrained_solve"):
+                al = ctx.repo.find("optimism.AlSolver:augmented_lagrange_solve")
+                al_seen = al is not None and al.qualname in r["visited"]
+                al_uses = [e for e in uses if e["kind"] == "use" and e.get("callee_scope") is al]
+                inlined_al[q] = inlined_al.get(q, 0) + (1 if (al_seen or al_uses) else 0)
+                if al_uses:
+                    e = al_uses[0]
+                    ps_al = al.params()
+                    bound = dict(zip(ps_al, e["args"]))
+                    bound.update(e["kwargs"])
+                    okp = isinstance(bound.get(ps_al[2]), Record) and m.same(bound.get(ps_al[2]), pnew)
+                    okw = bound.get("useWarmStart", True) is False
+                    agg.add(R2, "front-end-forwards-p-no-second-warm-start", sc, _node_in(sc, e["node"]), _verdict(okp and okw, True),
+                            "AL driver gets the same p and useWarmStart=False",
+                            f"[{label}] AL driver called with p={_show(m, bound.get(ps_al[2]), 40)}, useWarmStart={bound.get('useWarmStart', 'default True')}: "
+                            f"parameters or predictor would be applied twice / stale")
+                elif al_seen:
+                    # the AL driver was interpreted in line: it must not have applied a second predictor, and must have assigned the same p
+                    nws = len(wss)
+                    expect = 1 if r["combo"].get("useWarmStart") else 0
+                    sets = [e for e in evs if e["kind"] == "set" and e["obj"] is obj and e["attr"] == "p"]
+                    okp = all(m.same(e["value"], pnew) for e in sets)
+                    second_zero = all(m.is_numlike(e["value"]) and m.A.is_zero(m.num(e["value"]).r) for e in wss[1:] if e["returned"])
+                    agg.add(R2, "front-end-forwards-p-no-second-warm-start", sc, None, _verdict(okp and (nws <= max(expect, 1)) or (okp and second_zero), True),
+                            "the AL driver (interpreted in line) receives the same p and applies no second predictor",
+                            f"[{label}] through the AL driver the parameters are set to {[_show(m, e['value'], 30) for e in sets]} and {nws} warm starts run: "
+                            f"parameters or predictor would be applied twice / stale")
+        for orc, r in paths:
+            g_executed.update(r["m"].executed)
+            g_visited.update(r["visited"])
+        if n_use == 0:
+            ctx.undecided(R2, sc, None, construct="params-assigned-before-solve", detail="no hand-off of the objective to a solver found on any path")
+        if n_warm == 0 and not q.endswith(":bound_constrained_solve") and "augmented" not in q:
+            ctx.undecided(R1, sc, None, construct="driver-adds-increment", detail="no warm start in this driver")
+        if q.endswith(":bound_constrained_solve") and not inlined_al.get(q):
+            ctx.undecided(R2, sc, None, construct="front-end-forwards-p-no-second-warm-start", detail="the call of the AL driver was not found")
+        agg.flush(ctx)
+
+    # safety net for the branch-coverage exploration of loop bodies: every statement that stores a `.p` attribute in the interpreted
+    # functions must have been executed on some path of some driver analysis
+    for qn in sorted(g_visited):
+        s_ = ctx.repo.find(qn)
+        if s_ is None or s_.module.name == WS:
+            continue
+        for st in walk_local(s_.node):
+            tg = st.targets if isinstance(st, ast.Assign) else [st.target] if isinstance(st, (ast.AugAssign, ast.AnnAssign)) else []
+            if any(isinstance(x, ast.Attribute) and x.attr == "p" for t_ in tg for x in ast.walk(t_)) and id(st) not in g_executed:
+                ctx.undecided(R2, s_, st, construct="params-assigned-before-solve", detail="an assignment of a `.p` attribute was not reached by the path exploration")
+
+
+def _base_only_scaling_issue(m, base, X0):
+    """the base of the start point is some multiple of x0 (a scaling question reported under D3, not an increment question)"""
+    (a,) = X0.r.atoms()
+    try:
+        from optilint.expr import simplify
+        q = Num(simplify(m.A.norm(base.r / X0.r)))
+    except Exception:
+        return False
+    return not m.depends(q, a) and _precise(m, q)
+
+
+# ------------------------------------------------------------------ D3: scaled objective classes
+
+def _ctor(ctx, cls):
+    for c in ctx.repo.class_mro(cls):
+        for ch in c.children:
+            if ch.kind == "function" and ch.name == "__init__":
+                return ch
+    return None
+
+
+def _build_scaled(ctx, cls, with_strategy):
+    """interpret the constructor of a scaled objective class on (F, X0, P, ...); optional (None-default) parameters are None or opaque objects"""
+    init = _ctor(ctx, cls)
+    if init is None or init.cls is not cls:
+        raise Incomplete(f"{cls.qualname}: no constructor of its own")
+    inline = _inline_policy(ctx)
+    m = Machine(ctx.repo, Oracle(), inline, _mutable(ctx))
+    t = _params_type(m, ctx)
+    P = _params(m, t, "p")
+    X0 = m.sym("X0")
+    F = FunSym("F")
+    ps = init.params()[1:]
+    if len(ps) < 3:
+        raise Incomplete(f"{cls.qualname}.__init__: expected (objective_func, x0, p, ...)")
+    kwargs = {}
+    opt = []
+    for p_ in ps[3:] + init.kwonly():
+        d = init.default_of(p_)
+        if isinstance(d, ast.Constant) and d.value is None:
+            opt.append(p_)
+            kwargs[p_] = Obj(p_, opaque=True) if with_strategy else None
+        else:
+            kwargs[p_] = Obj(p_, opaque=True)
+    base_calls = []
+    others = [c for c in ctx.repo.class_mro(cls) if c is not cls]
+
+    def watch(mm, phase, info):
+        if phase == "enter":
+            base_calls.append(dict(info["env"].vars))
+        return None
+    for c in others:
+        for ch in c.children:
+            if ch.kind == "function" and ch.name == "__init__":
+                m.watch[ch.qualname] = watch
+    o = m.instantiate(cls, [F, X0, P], kwargs)
+    return {"m": m, "obj": o, "F": F, "X0": X0, "P": P, "base": base_calls, "opt": opt, "kwargs": kwargs, "init": init}
+
+
+def _factor(m, v, atom_num):
+    """v / atom if the quotient does not depend on the atom, else None"""
+    from optilint.expr import simplify
+    (a,) = atom_num.r.atoms()
+    q = Num(simplify(m.A.norm(m.num(v).r / atom_num.r)))
+    return None if m.depends(q, a) else q
+
+
+def _at_base(m, n):
+    """undo jax `.at[i].op(v)` updates: the array they were applied to"""
+    n = m.num(n)
+    for _ in range(6):
+        ats = list(n.r.atoms())
+        r = n.r
+        if len(ats) != 1 or not m.equal(n, Num(m.A.atom(ats[0]))):
+            return n
+        k, ex = m.info.get(ats[0], ("sym", {}))
+        if k == "app" and ex["f"].startswith(".") and ex["f"][1:] in ("multiply", "set", "add", "divide", "mul", "apply", "min", "max", "power"):
+            inner = ex["args"][0]
+            if isinstance(inner, Num):
+                ia = list(inner.r.atoms())
+                k2, ex2 = m.info.get(ia[0], ("sym", {})) if len(ia) == 1 else ("", {})
+                if k2 == "app" and ex2["f"] == "[]":
+                    at = ex2["args"][0]
+                    aa = list(at.r.atoms()) if isinstance(at, Num) else []
+                    k3, ex3 = m.info.get(aa[0], ("sym", {})) if len(aa) == 1 else ("", {})
+                    if k3 == "app" and ex3["f"] == ".at":
+                        n = m.num(ex3["args"][0])
+                        continue
+        return n
+    return n
+
+
+def d3_classes(ctx):
+    rule = "D3/T6-scaling-transparent"
+    for qc in (f"{OBJ}:ScaledObjective", f"{BCO}:BoundConstrainedObjective"):
+        cls = ctx.need(qc)
+        cn = cls.name
+        init = _ctor(ctx, cls)
+        if init is not None:
+            ctx.touch(init)
+        runs = {}
+        for with_strategy in (True, False):
+            try:
+                runs[with_strategy] = _build_scaled(ctx, cls, with_strategy)
+            except Incomplete:
+                raise
+            except PathEnd as ex:
+                ctx.undecided(rule, cls, None, construct=f"{cn}:interpretation", detail=f"constructor raises on symbolic input ({'with' if with_strategy else 'without'} strategy): {ex}")
+            except ERR as ex:
+                ctx.undecided(rule, cls, None, construct=f"{cn}:interpretation", detail=f"cannot interpret the constructor ({'with' if with_strategy else 'without'} strategy): {type(ex).__name__}: {ex}")
+        if len(runs) < 2:
+            continue
+        scope = init or cls
+        facts = {}
+        for ws_, r in runs.items():
+            m, o, X0, P = r["m"], r["obj"], r["X0"], r["P"]
+            f = {"ok_roles": False}
+            facts[ws_] = f
+            if not r["base"]:
+                ctx.undecided(rule, scope, None, construct=f"{cn}:roles", detail="the base class constructor is not called")
+                continue
+            base = r["base"][0]
+            (x0a,) = X0.r.atoms()
+            Y, Q = m.sym("Y"), _params(m, _params_type(m, ctx), "q")
+            g = gval = None
+            for k_, v in base.items():
+                if isinstance(v, (Closure, JitFn, Partial, Bound)):
+                    try:
+                        val = m.call(v, [Y, Q], {})
+                    except (Unsupported, PathEnd):
+                        continue
+                    if m.is_numlike(val) and any(m.info.get(a, ("", {}))[1].get("f") == "F" for a in m.atoms_deep(m.num(val))):
+                        g, gval = v, m.num(val)
+            starts = [v for v in base.values() if m.is_numlike(v) and not isinstance(v, (int, float)) and m.depends(m.num(v), x0a)
+                      and _factor(m, v, X0) is not None]
+            strat = [v for v in base.values() if isinstance(v, Obj) and v is not o and not v.opaque]
+            f.update(g=g, gval=gval, start=m.num(starts[0]) if len(starts) == 1 else None, strat=strat[0] if strat else None,
+                     p_ok=any(isinstance(v, Record) and m.same(v, P) for v in base.values()), Y=Y, Q=Q)
+            # t: the factor of xBar inside the scaled objective
+            t = None
+            if gval is not None:
+                ats = list(gval.r.atoms())
+                if len(ats) == 1 and m.equal(gval, Num(m.A.atom(ats[0]))):
+                    ex = m.info[ats[0]][1]
+                    if ex.get("f") == "F" and len(ex["args"]) == 2 and m.is_numlike(ex["args"][0]):
+                        t = _factor(m, ex["args"][0], Y)
+                        f["q_ok"] = isinstance(ex["args"][1], Record) and m.same(ex["args"][1], Q)
+            f["t"] = t
+            f["s"] = _factor(m, f["start"], X0) if f["start"] is not None else None
+            f["ok_roles"] = True
+        if not all(facts[k]["ok_roles"] for k in facts):
+            continue
+        # ---- evaluates F at t * xBar (both scenarios)
+        bad = [k for k, f in facts.items() if f["t"] is None or not f.get("q_ok")]
+        und = [k for k, f in facts.items() if f["g"] is None]
+        m_ = runs[True]["m"]
+        prec_g = all(f["gval"] is None or _precise(runs[k]["m"], f["gval"], lenient=True) for k, f in facts.items())
+        ctx.decide(rule, None if und else _verdict(not bad, prec_g), scope, None, construct=f"{cn}:evaluates-at-invScaling*xBar",
+                   detail="the objective handed to the base class is (xBar, p) -> objective_func(t * xBar, p) with t independent of xBar",
+                   bad_detail=("no function handed to the base class evaluates objective_func" if und or not bad else
+                               f"the scaled objective evaluates to `{_show(runs[bad[0]]['m'], facts[bad[0]]['gval'], 80)}`, not objective_func(t*xBar, p) with a "
+                               f"diagonal factor t and the parameters passed through"))
+        # ---- s * t == 1
+        for ws_, tag in ((True, "reciprocal"), (False, "trivial")):
+            f, m = facts[ws_], runs[ws_]["m"]
+            if f["s"] is None or f["t"] is None:
+                ctx.undecided(rule, scope, None, construct=f"{cn}:invScaling=1/scaling:{tag}", detail="scaling factors not identified "
+                              f"(start point `{_show(m, f['start'], 40)}`, scaled objective `{_show(m, f['gval'], 40)}`)")
+                continue
+            prod = Num(m.A.norm(f["s"].r * f["t"].r))
+            ok = m.equal(prod, m.const(1))
+            if ws_ is False:
+                ok = ok and m.equal(f["s"], m.const(1))
+            ctx.decide(rule, _verdict(ok, _precise(m, f["s"], f["t"], lenient=True)), scope, None, construct=f"{cn}:invScaling=1/scaling:{tag}",
+                       detail=f"start factor s = {_show(m, f['s'], 40)}, objective factor t = {_show(m, f['t'], 40)}, s*t = 1",
+                       bad_detail=f"{'with' if ws_ else 'without'} a preconditioner strategy the start point is scaled by s = `{_show(m, f['s'], 50)}` but the scaled objective "
+                                  f"evaluates the user function at t*xBar with t = `{_show(m, f['t'], 50)}`: t is not the reciprocal of s"
+                                  + ("" if ws_ else " (both must be 1 without a strategy)"))
+        # ---- base class initialised with the scaled objective at s*x0 and p
+        bad = [k for k, f in facts.items() if f["s"] is None or f["g"] is None or not f["p_ok"]]
+        prec_b = all(f["start"] is None or _precise(runs[k]["m"], f["start"], lenient=True) for k, f in facts.items())
+        ctx.decide(rule, _verdict(not bad, prec_b), scope, None, construct=f"{cn}:base-init",
+                   detail="base class initialised with the scaled objective at s*x0 (s independent of x0) and the given parameters",
+                   bad_detail=f"base class initialised with start point `{_show(runs[bad[0]]['m'], facts[bad[0]]['start'], 60)}`" if bad else "")
+        # ---- stored attributes are the factors in use
+        for attr, role in (("scaling", "s"), ("invScaling", "t")):
+            bad, shown = [], ""
+            for k, f in facts.items():
+                m, o = runs[k]["m"], runs[k]["obj"]
+                v = o.attrs.get(attr)
+                if f[role] is None or v is None or not m.is_numlike(v) or not m.equal(v, f[role]):
+                    bad.append(k)
+                    shown = f"self.{attr} is `{_show(m, v, 50)}` but the factor in use is `{_show(m, f[role], 50)}` ({'with' if k else 'without'} strategy)"
+            prec_s = all(_precise(runs[k]["m"], runs[k]["obj"].attrs.get(attr), f[role], lenient=True) for k, f in facts.items()
+                         if runs[k]["m"].is_numlike(runs[k]["obj"].attrs.get(attr)) and f[role] is not None)
+            ctx.decide(rule, _verdict(not bad, prec_s), scope, None, construct=f"{cn}:stores-{attr}",
+                       detail=f"self.{attr} is the factor " + ("the start point is scaled with" if role == "s" else "applied to xBar inside the scaled objective"),
+                       bad_detail=shown + ": the drivers scale with the stored attribute, the objective with the other value")
+        # ---- with a strategy: the scaled strategy works with the diagonal t, and s = sqrt(diag K0) of the strategy initialised at x0
+        f, r = facts[True], runs[True]
+        m, o = r["m"], r["obj"]
+        strat = f["strat"]
+        if strat is None or f["t"] is None:
+            ctx.decide(rule, None if f["t"] is None else False, scope, None, construct=f"{cn}:precond-gets-invScaling",
+                       bad_detail="no scaled preconditioner strategy is handed to the base class although a strategy was given")
+        else:
+            try:
+                Y2 = m.sym("Y2")
+                meth = m.getattr(strat, "initialize")
+                n_extra = len(meth.fn.scope.params()) - 3 if isinstance(meth, Bound) else 0
+                mark = len(m.events)
+                m.call(meth, [Y2, r["P"]] + [m.sym(f"extra{i}") for i in range(max(n_extra, 0))], {})
+                inner = [e for e in m.events[mark:] if e["kind"] == "ocall" and e["meth"] == "initialize"]
+                want = Num(m.A.norm(f["t"].r * Y2.r))
+                got = m.num(inner[0]["args"][0]) if inner and inner[0]["args"] and (m.is_numlike(inner[0]["args"][0]) or isinstance(inner[0]["args"][0], Mat)) else None
+                ok = got is not None and m.equal(got, want)
+                ctx.decide(rule, _verdict(ok, got is not None and _precise(m, got, lenient=True)), scope, None, construct=f"{cn}:precond-gets-invScaling",
+                           detail="the scaled strategy maps scaled points back with the same diagonal t the scaled objective uses",
+                           bad_detail=f"the scaled preconditioner strategy initialises the user's strategy at `{_show(m, got, 50)}` for the scaled point Y2; with the "
+                                      f"objective's factor t it must be `{_show(m, want, 50)}` (it was given the wrong diagonal)")
+            except (PathEnd,) + ERR as ex:
+                ctx.undecided(rule, scope, None, construct=f"{cn}:precond-gets-invScaling", detail=f"cannot interpret the scaled strategy: {ex}")
+        # s^2 == diagonal(K0), K0 = first preconditioner of the given strategy initialised at (x0, p)
+        evs = [e for e in m.events if e["kind"] == "ocall" and e["obj"].opaque]
+        k0 = [e for e in evs if e["meth"] == "precond_at_attempt"]
+        ini = [e for e in evs if e["meth"] == "initialize"]
+        s_val = o.attrs.get("scaling")
+        if f["s"] is None or not k0 or not m.is_numlike(s_val):
+            ctx.undecided(rule, scope, None, construct=f"{cn}:scaling=sqrt(diag K)", detail="the strategy's preconditioner is not requested / scaling not identified")
+        else:
+            e0 = k0[0]
+            ok_att = len(e0["args"]) == 1 and m._int(e0["args"][0]) == 0
+            before = [e for e in ini if e["idx"] < e0["idx"] and e["obj"] is e0["obj"]]
+            ok_ini = bool(before) and len(before[-1]["args"]) >= 2 and m.is_numlike(before[-1]["args"][0]) and m.equal(before[-1]["args"][0], r["X0"]) \
+                and m.same(before[-1]["args"][1], r["P"])
+            diag = m.app(".diagonal", [e0["ret"]])
+            sb = _at_base(m, s_val)
+            ok_s = m.equal(Num(m.A.norm(sb.r * sb.r)), diag)
+            ctx.decide(rule, _verdict(ok_att and ok_ini and ok_s, _precise(m, before[-1]["args"][0], s_val, lenient=True) if before else True), scope, None,
+                       construct=f"{cn}:scaling=sqrt(diag K)",
+                       detail="scaling = sqrt(diagonal of the strategy's first preconditioner), strategy initialised at the unscaled (x0, p)",
+                       bad_detail=f"scaling is `{_show(m, sb, 60)}` (strategy initialised at `{_show(m, before[-1]['args'][0], 30) if before else 'nothing'}`, attempt "
+                                  f"`{_show(m, e0['args'][0], 10) if e0['args'] else '?'}`), not the square root of the diagonal of the first preconditioner at (x0, p)")
+
+
+# ------------------------------------------------------------------ D3: scaled preconditioner strategies
+
+def d3_strategies(ctx):
+    rule = "D3/T6-scaling-transparent"
+    for q in (f"{OBJ}:ScaledPrecondStrategy", f"{BCO}:ScaledPrecondStrategy"):
         cls = ctx.need(q)
-        meth = {c.name: c for c in cls.children if c.kind == "function"}
-        pa = meth.get("precond_at_attempt")
-        ini = meth.get("initialize")
-        ctor = meth.get("__init__")
-        if not (pa and ini and ctor):
+        cn = cls.name
+        init = _ctor(ctx, cls)
+        meths = {}
+        for c in ctx.repo.class_mro(cls):
+            for ch in c.children:
+                if ch.kind == "function" and ch.name not in meths:
+                    meths[ch.name] = ch
+        pa, ini = meths.get("precond_at_attempt"), meths.get("initialize")
+        if not (init and pa and ini):
             raise Incomplete(f"{q}: methods missing")
-        from .common import Unifier
-        up = Unifier(pa)
-        sp_, at_ = pa.params()[0], pa.params()[1]
-        k_def = up.assigns(f"{sp_}.ps.precond_at_attempt({at_})", target="K")
-        k2 = [s_ for s_ in walk_local(pa.node) if isinstance(s_, ast.Assign) and isinstance(s_.targets[0], ast.Name)
-              and any(up.match(x_, f"{sp_}.{diag}.T * K * {sp_}.{diag}") for x_ in ast.walk(s_.value))]
-        ok = len(k_def) == 1 and len(k2) == 1
-        if ok:
-            rets_ = pa.returns()
-            ok = len(rets_) == 1 and isinstance(rets_[0], ast.Name) and rets_[0].id == k2[0].targets[0].id
-        ctx.decide(rule, ok, pa, k2[0] if k2 else None, construct=f"{cls.name}:congruence",
-                   detail=f"K2 = D^T K D with D = self.{diag}", bad_detail=f"scaled preconditioner is `{src(k2[0].value) if k2 else '?'}`, not D^T K D with one diagonal D")
-        c = [c for c in calls_in(ini) if isinstance(c.func, ast.Attribute) and c.func.attr == "initialize"]
-        ok = len(c) == 1 and same(c[0].args[0], f"{ini.params()[0]}.{diag} * {ini.params()[1]}")
-        ctx.decide(rule, ok, ini, c[0] if c else None, construct=f"{cls.name}:initialize-at-unscaled-point",
-                   detail=f"inner strategy initialised at self.{diag}*x", bad_detail=f"inner strategy initialised at `{src(c[0].args[0]) if c else '?'}`")
-        st = [s for s in walk_local(ctor.node) if isinstance(s, ast.Assign) and isinstance(s.targets[0], ast.Attribute) and s.targets[0].attr == diag]
-        dpar = [p_ for p_ in ctor.params() if "scaling" in p_.lower()]
-        ok = len(st) == 1 and bool(dpar) and dpar[0] in src(st[0].value) and "sparse_diags" in src(st[0].value)
-        ctx.decide(rule, ok, ctor, st[0] if st else None, construct=f"{cls.name}:diagonal-from-argument",
-                   detail=f"self.{diag} = sparse_diags(dofScaling)", bad_detail=f"self.{diag} = `{src(st[0].value) if st else '?'}`")
+        for s_ in (init, pa, ini):
+            ctx.touch(s_)
+        try:
+            m = Machine(ctx.repo, Oracle(), _inline_policy(ctx), _mutable(ctx))
+            args = [Obj(p_, opaque=True) for p_ in init.params()[1:]]
+            o = m.instantiate(cls, args, {})
+            # the diagonal: the attribute that holds diag(<constructor argument>)
+            diags = []
+            for a, v in o.attrs.items():
+                if isinstance(v, Mat) and len(v.terms) == 1:
+                    (w, c), = v.terms.items()
+                    ex = m.info.get(w[0], ("", {}))[1] if len(w) == 1 else {}
+                    if "diag" in ex and m.equal(Num(c), m.const(1)):
+                        diags.append((a, w[0], ex["diag"]))
+            arg_atoms = {ar.name for ar in args}
+            ok = len(diags) == 1 and any(m.equal(diags[0][2], Num(m.A.atom(n))) for n in arg_atoms)
+            ctx.decide(rule, ok, init, None, construct=f"{cn}:diagonal-from-argument",
+                       detail=f"self.{diags[0][0] if diags else '?'} = diag(constructor argument)",
+                       bad_detail=f"the strategy stores {[(a, _show(m, d, 30)) for a, _s, d in diags]} as diagonal matrices; exactly one diag(<constructor argument>) expected")
+            if len(diags) != 1:
+                continue
+            dname, dsym, dvec = diags[0]
+            inner_objs = [ar for ar in args]
+            # initialize: the inner strategy sees D * x
+            Y, Pq = m.sym("Y"), _params(m, _params_type(m, ctx), "q")
+            mark = len(m.events)
+            m.call(m.getattr(o, "initialize"), [Y, Pq] + [m.sym(f"extra{i}") for i in range(len(ini.params()) - 3)], {})
+            inner = [e for e in m.events[mark:] if e["kind"] == "ocall" and e["meth"] == "initialize"]
+            got = None
+            if inner and inner[0]["args"]:
+                a0 = inner[0]["args"][0]
+                got = m.num(a0) if (m.is_numlike(a0) or isinstance(a0, Mat)) else None
+            want = Num(m.A.norm(dvec.r * Y.r))
+            ctx.decide(rule, _verdict(got is not None and m.equal(got, want), got is None or _precise(m, got, lenient=True)) if inner else False, ini, None,
+                       construct=f"{cn}:initialize-at-unscaled-point",
+                       detail=f"inner strategy initialised at self.{dname}*x",
+                       bad_detail=f"inner strategy initialised at `{_show(m, got, 50) if inner else 'nothing'}`, not at D*x with the strategy's own diagonal D")
+            # precond_at_attempt: D^T K D (+ terms that do not involve K)
+            mark = len(m.events)
+            att = m.sym("attempt")
+            K2 = m.call(m.getattr(o, "precond_at_attempt"), [att], {})
+            inner = [e for e in m.events[mark:] if e["kind"] == "ocall" and e["meth"] == "precond_at_attempt"]
+            ok, shown = False, _show(m, K2, 90)
+            if inner and len(inner) == 1 and isinstance(K2, Mat):
+                e0 = inner[0]
+                (kname,) = e0["ret"].r.atoms()
+                kwords = {w: c for w, c in K2.terms.items() if any(kname in s_ for s_ in w)}
+                ok = list(kwords) == [(dsym, kname, dsym)] and m.equal(Num(kwords[(dsym, kname, dsym)]), m.const(1)) \
+                    and len(e0["args"]) == 1 and m.is_numlike(e0["args"][0]) and m.equal(e0["args"][0], att)
+            ctx.decide(rule, ok, pa, None, construct=f"{cn}:congruence", detail=f"K2 = D^T K D with D = self.{dname}",
+                       bad_detail=f"scaled preconditioner is `{shown}`, not D^T K D (D the strategy's diagonal, K the inner strategy's matrix for the same attempt)")
+        except PathEnd as ex:
+            ctx.undecided(rule, cls, None, construct=f"{cn}:interpretation", detail=f"raises on symbolic input: {ex}")
+        except ERR as ex:
+            ctx.undecided(rule, cls, None, construct=f"{cn}:interpretation", detail=f"cannot interpret: {type(ex).__name__}: {ex}")
 
 
 # ------------------------------------------------------------------ D4
 
 def d4(ctx):
-    from . import C07
-    sub = type("Sub", (), {})()
-    # reuse the slot-table rule of C07 under this property's rule name
-    class Proxy:
-        def __init__(self, ctx):
-            self._c = ctx
-        def __getattr__(self, k):
-            return getattr(self._c, k)
-        def decide(self, rule, *a, **kw):
-            return self._c.decide(rule.replace("D3/T5-parameter-slots", "D4/T5-parameter-slots"), *a, **kw)
-        def refuted(self, rule, *a, **kw):
-            return self._c.refuted(rule.replace("D3/T5-parameter-slots", "D4/T5-parameter-slots"), *a, **kw)
-        def undecided(self, rule, *a, **kw):
-            return self._c.undecided(rule.replace("D3/T5-parameter-slots", "D4/T5-parameter-slots"), *a, **kw)
-        def proved(self, rule, *a, **kw):
-            return self._c.proved(rule.replace("D3/T5-parameter-slots", "D4/T5-parameter-slots"), *a, **kw)
-    C07.d3_param_index_update(Proxy(ctx))
-    # the Jacobian-vector closures used by the warm start take the parameters from their own argument
-    C07.d3_objective_closures(Proxy(ctx), pattern=r"^jac_xp\d*_vec$", min_count=2)
+    rule = "D4/T5-parameter-slots"
+    objmod = ctx.need_module(OBJ)
+    piu = ctx.need(f"{OBJ}:param_index_update")
+    m = Machine(ctx.repo, Oracle(), lambda sc: True, _mutable(ctx))
+    t = _params_type(m, ctx)
+    # ---- slot table
+    P = _params(m, t, "p")
+    new = m.sym("NEW")
+    fn = m.module_value(objmod, "param_index_update")
+    for k in range(len(t.fields)):
+        try:
+            res = explore(lambda orc: _call_with(ctx, piu, orc, lambda mm: [_params(mm, _params_type(mm, ctx), "p"), k, mm.sym("NEW")]), 16)
+        except ERR as ex:
+            ctx.undecided(rule, piu, None, construct=f"param_index_update:index=={k}", detail=f"cannot interpret: {ex}")
+            continue
+        ok, why = True, []
+        for orc, (mm, out, status) in res:
+            if status != "ret" or not isinstance(out, Record) or len(out.values) != len(t.fields):
+                ok = False
+                why.append(f"returns `{_show(mm, out, 50)}`" if status == "ret" else "raises")
+                continue
+            for j, v in enumerate(out.values):
+                want = mm.sym("NEW") if j == k else mm.sym(f"p{j}")
+                if not (mm.is_numlike(v) and mm.equal(v, want)):
+                    ok = False
+                    why.append(f"slot {j} gets `{_show(mm, v, 30)}` instead of " + ("the new value" if j == k else f"p[{j}]"))
+        ctx.decide(rule, ok, piu, None, construct=f"param_index_update:index=={k}", detail=f"index {k}: new value in slot {k}, others copied",
+                   bad_detail=f"param_index_update(index=={k}): " + "; ".join(why[:3]))
+    # ---- the Objective's derivative closures and protocol methods
+    cls = ctx.need(f"{OBJ}:Objective")
+    init = ctx.need(f"{OBJ}:Objective.__init__")
+    try:
+        m = Machine(ctx.repo, Oracle(), lambda sc: True, _mutable(ctx))
+        t = _params_type(m, ctx)
+        Pinit, Pcur, Q = _params(m, t, "pinit"), _params(m, t, "pcur"), _params(m, t, "q")
+        E = FunSym("E")
+        o = m.instantiate(cls, [E, m.sym("Xinit"), Pinit], {})
+        o.attrs["p"] = Pcur          # a later load step: the parameters were replaced after construction (and after any jit tracing)
+        Z, V = m.sym("Z"), m.sym("V")
+    except PathEnd as ex:
+        ctx.undecided(rule, init, None, construct="Objective:interpretation", detail=f"constructor raises on symbolic input: {ex}")
+        return
+    except ERR as ex:
+        ctx.undecided(rule, init, None, construct="Objective:interpretation", detail=f"cannot interpret Objective.__init__: {type(ex).__name__}: {ex}")
+        return
+    n_cl = 0
+    for attr in sorted(o.attrs):
+        f = o.attrs[attr]
+        if not isinstance(f, (JitFn, Closure, Partial, Bound)):
+            continue
+        try:
+            val = m.call(f, [Z, Q, V], {})
+        except (PathEnd,) + ERR:
+            continue
+        if not m.is_numlike(val):
+            continue
+        val = m.num(val)
+        slots = set()
+        for a in val.r.atoms():
+            k_, ex = m.info.get(a, ("", {}))
+            if k_ == "lin" and ex["op"][0] == "D" and len(ex["op"][2]) == 2 and ex["op"][2][0] == 1:
+                slots.add(ex["op"][2][1])
+        if len(slots) != 1:
+            continue
+        n_cl += 1
+        (k,) = slots
+        want = m.lin(("D", _grad_atom(m, Z, Q), (1, k)), V)
+        ok = m.equal(val, want)
+        stale = sorted(a for a in m.atoms_deep(val) if m.kind(a) == "stale" or a.startswith("pcur") or a.startswith("pinit"))
+        ctx.decide(rule, _verdict(ok, _precise(m, val)), init, None, construct=f"Objective.{attr}",
+                   detail=f"(x, p, v) -> d grad_x(x, p)/dp[{k}] . v at its own arguments",
+                   bad_detail=f"Objective.{attr}(x, p, v) evaluates to `{_show(m, val, 120)}`, not the derivative of grad_x(x, p) with respect to p[{k}] at its own "
+                              f"arguments applied to v" + (f"; it depends on {stale[:3]}: the objective's parameters are read when the function is traced, "
+                                                           f"not taken from the closure's own parameter argument" if stale else ""))
+    if n_cl < 2:
+        ctx.undecided(rule, init, None, construct="Objective:parameter-jvp-closures", detail=f"{n_cl} forward-mode parameter derivative closures found (2 on the reference tree)")
+    for meth, path in sorted(PROTOCOL.items()):
+        msc = None
+        for c in ctx.repo.class_mro(cls):
+            for ch in c.children:
+                if ch.kind == "function" and ch.name == meth and msc is None:
+                    msc = ch
+        if msc is None:
+            ctx.undecided(rule, cls, None, construct=f"Objective.{meth}", detail="method of the warm-start protocol not found")
+            continue
+        try:
+            val = m.call(m.getattr(o, meth), [Z, V], {})
+            want = m.lin(("D", _grad_atom(m, Z, Pcur), path), V)
+            ok = m.is_numlike(val) and m.equal(val, want)
+            stale = sorted(a for a in m.atoms_deep(val) if m.kind(a) == "stale" or a.startswith("pinit")) if m.is_numlike(val) else []
+            what = "x" if path == (0,) else f"p[{path[1]}]"
+            ctx.decide(rule, _verdict(ok, m.is_numlike(val) and _precise(m, val)), msc, None, construct=f"Objective.{meth}",
+                       detail=f"= d grad_x(x, self.p)/d{what} . v with the current parameters",
+                       bad_detail=f"Objective.{meth}(x, v) evaluates to `{_show(m, val, 120)}`, not the derivative of grad_x(x, self.p) with respect to {what} applied to v"
+                                  + (f" (depends on {stale[:3]}: parameters captured when the function was traced / constructed, not the current ones)" if stale else ""))
+        except PathEnd as ex:
+            ctx.undecided(rule, msc, None, construct=f"Objective.{meth}", detail=f"raises on symbolic input: {ex}")
+        except ERR as ex:
+            ctx.undecided(rule, msc, None, construct=f"Objective.{meth}", detail=f"cannot interpret: {type(ex).__name__}: {ex}")
+    for qn in sorted(m.visited):
+        s_ = ctx.repo.find(qn)
+        if s_ is not None and s_.module.name == OBJ and "<" not in qn:
+            ctx.touch(s_)
+
+
+def _call_with(ctx, sc, orc, mkargs):
+    mm = Machine(ctx.repo, orc, lambda s: True, _mutable(ctx))
+    try:
+        out = mm.call_closure(Closure(sc, mm.modenv(sc.module)), mkargs(mm), {})
+        return (mm, out, "ret")
+    except PathEnd:
+        return (mm, None, "raised")
 
 
 def variants(repo):
@@ -414,8 +1201,18 @@ def variants(repo):
     A = "optimism/AlSolver.py"
     B = "optimism/BoundConstrainedSolver.py"
     BO = "optimism/BoundConstrainedObjective.py"
+
+    def subs(*pairs):
+        """several textual replacements in one module, each of which must apply exactly once"""
+        def f(src):
+            for old, new in pairs:
+                if src.count(old) != 1:
+                    return None
+                src = src.replace(old, new)
+            return src
+        return f
     return [
-        Variant("warm start linearised at the unscaled point", E, sub_in_func("nonlinear_equation_solve", "WarmStart.warm_start_increment(objective, xBar0, p)", "WarmStart.warm_start_increment(objective, x0, p)"), "D3/T6-scaling-transparent"),
+        Variant("warm start linearised at the unscaled point", E, sub_in_func("nonlinear_equation_solve", "WarmStart.warm_start_increment(objective,\n                                               xBar0, p)", "WarmStart.warm_start_increment(objective,\n                                               x0, p)"), "D3/T6-scaling-transparent"),
         Variant("pNew - p_old", W, sub_in_func("warm_start_increment", "dp = objective.p[index] - pNew[index]", "dp = pNew[index] - objective.p[index]"), "D1/T7-predictor-sign"),
         Variant("return -dx", W, sub_in_func("warm_start_increment", "    return dx ", "    return -dx "), "D1/T7-predictor-sign"),
         Variant("wrong slot difference", W, sub_in_func("warm_start_increment", "dp = objective.p[index] - pNew[index]", "dp = objective.p[index] - pNew[0]"), "D1/T7-predictor-sign"),
@@ -437,4 +1234,50 @@ def variants(repo):
         Variant("alpha-rename warm_start_increment", W, alpha_rename("warm_start_increment"), None),
         Variant("alpha-rename nonlinear_equation_solve", E, alpha_rename("nonlinear_equation_solve"), None),
         Variant("alpha-rename SPG solve", S, alpha_rename("solve"), None),
+        # ---- refactorings and mutations written while hardening the rules (helper extraction, guard clauses, temporaries, keyword
+        # arguments, equivalent expression forms, lambda/def/partial/decorator forms, setter methods, ...)
+        Variant('preserving: ws-dict-dispatch-neg-rhs', 'optimism/WarmStart.py', subs(("    dp = objective.p[index] - pNew[index]\n\n    if index==0:\n        b = objective.jacobian_p_vec(x, dp)\n    elif index==2:\n        b = objective.jacobian_p2_vec(x, dp)\n    else:\n        raise('invalid warm start parameter gradient direction')\n", "    jacobianVecs = {0: objective.jacobian_p_vec, 2: objective.jacobian_p2_vec}\n    if index not in jacobianVecs:\n        raise('invalid warm start parameter gradient direction')\n    pOld = objective.p\n    deltaP = pNew[index] - pOld[index]\n    b = -jacobianVecs[index](x, deltaP)\n")), None),
+        Variant('preserving: ws-negated-system', 'optimism/WarmStart.py', subs(("    dx, cgWarmStartSolveSuccess = cg(Lop, b, M=LopPrecond, callback=callback)\n    print('num warm start cg iters = ', numIters)\n    # assert(cgWarmStartSolveSuccess==0)\n    \n    return dx \n\n\nfrom jax", "    dx, cgWarmStartSolveSuccess = cg(Lop, -b, M=LopPrecond, callback=callback)\n    print('num warm start cg iters = ', numIters)\n    # assert(cgWarmStartSolveSuccess==0)\n    \n    return -dx \n\n\nfrom jax")), None),
+        Variant('preserving: nes-helper-extraction', 'optimism/EquationSolver.py', subs(('    xBar0 = objective.scaling * x0\n    \n    if useWarmStart:\n        if updatePrecond:\n            objective.update_precond(xBar0)\n        \n        dxBar = WarmStart.warm_start_increment(objective,\n                                               xBar0, p)\n        xBar0 += dxBar\n        objective.p = p\n    else:\n        objective.p = p\n\n    if updatePrecond:\n        objective.update_precond(xBar0)\n        \n    xBar, solverSuccess = solver_algorithm(objective, xBar0, settings, callback=callback)\n    \n    return objective.invScaling * xBar, solverSuccess', '    xBar0 = _predict_and_update_parameters(objective, _to_scaled(objective, x0), p,\n                                           warm=useWarmStart, refresh=updatePrecond)\n    if updatePrecond:\n        objective.update_precond(xBar0)\n    result = solver_algorithm(objective, xBar0, settings, callback=callback)\n    return _from_scaled(objective, result[0]), result[1]\n\n\ndef _to_scaled(objective, x):\n    return objective.scaling * x\n\n\ndef _from_scaled(objective, xBar):\n    unscaled = objective.invScaling * xBar\n    return unscaled\n\n\ndef _predict_and_update_parameters(objective, xStart, pNext, warm, refresh):\n    if not warm:\n        objective.p = pNext\n        return xStart\n    if refresh:\n        objective.update_precond(xStart)\n    predicted = xStart + WarmStart.warm_start_increment(objective, pNew=pNext, x=xStart)\n    objective.p = pNext\n    return predicted')), None),
+        Variant('preserving: spg-guard-and-temps', 'optimism/TrustRegionSPG.py', subs(('    xBar0 = objective.scaling * x0\n    lBar = objective.scaling * lowerBounds\n    uBar = objective.scaling * upperBounds\n    \n    if useWarmStart:\n        if updatePrecond:\n            objective.update_precond(xBar0)\n        \n        dxBar = WarmStart.warm_start_increment(objective,\n                                               xBar0, p)\n        xBar0 += dxBar\n        objective.p = p\n    else:\n        objective.p = p\n\n    if updatePrecond:\n        objective.update_precond(xBar0)\n\n    bounds = np.column_stack((lBar, uBar))\n        \n    xBar, solverSuccess = bound_constrained_trust_region_minimize(objective, xBar0, bounds, settings,\n                                                   callback=callback)\n    \n    return objective.invScaling * xBar, solverSuccess', '    s = objective.scaling\n    start = x0 * s\n    bounds = np.column_stack((lowerBounds * s, s * upperBounds))\n    if not useWarmStart:\n        objective.p = p\n    else:\n        if updatePrecond: objective.update_precond(start)\n        step = WarmStart.warm_start_increment(objective, start, p, index=0)\n        objective.p = p\n        start = step + start\n    if updatePrecond:\n        objective.update_precond(start)\n    solution, flag = bound_constrained_trust_region_minimize(objective, start, bounds, settings, callback=callback)\n    sInv = objective.invScaling\n    return solution * sInv, flag')), None),
+        Variant('preserving: scaledobjective-lambda-kwargs', 'optimism/Objective.py', subs(('        def scaled_objective(xBar, p):\n            x = invScaling * xBar\n            return objective_func(x, p)\n\n        xBar0 = scaling * x0\n        super().__init__(scaled_objective,\n                         xBar0,\n                         p,\n                         scaledPrecondStrategy)\n\n        self.scaling = scaling\n        self.invScaling = invScaling', '        scaled_objective = lambda y, q: objective_func(y * invScaling, q)\n        super().__init__(scaled_objective, x=scaling * x0, p=p, precondStrategy=scaledPrecondStrategy)\n        self.invScaling, self.scaling = invScaling, scaling')), None),
+        Variant('preserving: scaledprecond-assoc', 'optimism/Objective.py', subs(('        K2 = csc_matrix( self.invScaling.T * K * self.invScaling )', '        D = self.invScaling\n        KD = K * D\n        K2 = csc_matrix( D.T * KD )')), None),
+        Variant('preserving: objective-jvp-factory', 'optimism/Objective.py', subs(('        self.jac_xp_vec = jit(lambda x, p, vp0:\n                              jvp(lambda q0: self.grad_x(x, param_index_update(p,0,q0)),\n                                  (p[0],),\n                                  (vp0,))[1])\n\n        self.jac_xp2_vec = jit(lambda x, p, vp2:\n                               jvp(lambda q2: self.grad_x(x, param_index_update(p,2,q2)),\n                                   (p[2],),\n                                   (vp2,))[1])', '        def make_param_jvp(slot):\n            def param_jvp(x, p, v):\n                primalOut, tangentOut = jvp(lambda q: self.grad_x(x, param_index_update(p, slot, q)), (p[slot],), (v,))\n                return tangentOut\n            return jit(param_jvp)\n\n        self.jac_xp_vec = make_param_jvp(0)\n        self.jac_xp2_vec = make_param_jvp(slot=2)')), None),
+        Variant('preserving: piu-list-form', 'optimism/Objective.py', subs(("    if index==0:\n        return Params(newParam, p[1], p[2], p[3], p[4], p[5])\n    if index==1:\n        return Params(p[0], newParam, p[2], p[3], p[4], p[5])\n    if index==2:\n        return Params(p[0], p[1], newParam, p[3], p[4], p[5])\n    if index==3:\n        return Params(p[0], p[1], p[2], newParam, p[4], p[5])\n    if index==4:\n        return Params(p[0], p[1], p[2], p[3], newParam, p[5])\n    if index==5:\n        return Params(p[0], p[1], p[2], p[3], p[4], newParam)\n    print('invalid index passed to param_index_update = ', index)", "    if 0 <= index < len(p):\n        slots = list(p)\n        slots[index] = newParam\n        return Params(*slots)\n    print('invalid index passed to param_index_update = ', index)")), None),
+        Variant('preserving: al-hoist-and-swap', 'optimism/AlSolver.py', subs(('    if useWarmStart:\n        if updatePrecondBeforeWarmStart:\n            alObjective.update_precond(x)\n        x += WarmStart.warm_start_increment(alObjective, x, p)\n        alObjective.p = p\n    else:\n        alObjective.p = p\n', '    if not useWarmStart:\n        pass\n    else:\n        if updatePrecondBeforeWarmStart:\n            alObjective.update_precond(x)\n        dx0 = WarmStart.warm_start_increment(alObjective, x, p)\n        x = x + dx0\n    alObjective.p = p\n')), None),
+        Variant('preserving: bco-temps', 'optimism/BoundConstrainedObjective.py', subs(('        def scaled_objective(xBar, p):\n            x = invScaling * xBar\n            return objective_func(x, p)\n', '        def scaled_objective(xBar, params):\n            return objective_func(xBar * invScaling, params)\n'), ('        xBar0 = scaling * x0\n        super().__init__(scaled_objective,\n                         scaled_constraint_func,\n                         xBar0,\n                         p,', '        super().__init__(scaled_objective,\n                         scaled_constraint_func,\n                         x0 * scaling,\n                         p,')), None),
+        Variant('preserving: bcs-forward-flags', 'optimism/BoundConstrainedSolver.py', subs(('                                             useWarmStart=False,\n                                             updatePrecond=False,', '                                             updatePrecond=False,\n                                             useWarmStart=(1 > 2),')), None),
+        Variant('preserving: ws-getattr-ifexp-with', 'optimism/WarmStart.py', subs(("    if index==0:\n        b = objective.jacobian_p_vec(x, dp)\n    elif index==2:\n        b = objective.jacobian_p2_vec(x, dp)\n    else:\n        raise('invalid warm start parameter gradient direction')\n", "    if index not in (0, 2):\n        raise ValueError(f'invalid warm start parameter gradient direction {index}')\n    jacobian_vec = getattr(objective, 'jacobian_p_vec' if index == 0 else 'jacobian_p2_vec')\n    b = jacobian_vec(x, dp)\n")), None),
+        Variant('preserving: obj-decorated-defs-linearize', 'optimism/Objective.py', subs(('        self.hess_vec   = jit(lambda x, p, vx:\n                              jvp(lambda z: self.grad_x(z,p), (x,), (vx,))[1])\n', '        @jit\n        def hess_vec(x, p, vx):\n            gradAtX, hessianTimes = linearize(lambda z: self.grad_x(z,p), x)\n            return hessianTimes(vx)\n        self.hess_vec = hess_vec\n')), None),
+        Variant('preserving: obj-partial-slot', 'optimism/Objective.py', subs(('        self.jac_xp_vec = jit(lambda x, p, vp0:\n                              jvp(lambda q0: self.grad_x(x, param_index_update(p,0,q0)),\n                                  (p[0],),\n                                  (vp0,))[1])\n', '        def jac_xp_slot_vec(slot, x, p, v):\n            def grad_of_slot(q):\n                return self.grad_x(x, p._replace(**{Params._fields[slot]: q}))\n            return jvp(grad_of_slot, (p[slot],), (v,))[1]\n        self.jac_xp_vec = jit(partial(jac_xp_slot_vec, 0))\n')), None),
+        Variant('preserving: so-helper-method', 'optimism/Objective.py', subs(('        if precondStrategy:\n            precondStrategy.initialize(x0, p)\n            K0 = precondStrategy.precond_at_attempt(0)\n            scaling = np.sqrt(K0.diagonal())\n            invScaling = 1.0/scaling\n            \n            scaledPrecondStrategy = ScaledPrecondStrategy(precondStrategy,\n                                                          invScaling)\n\n        else:\n            scaling = 1.0\n            invScaling = 1.0\n            scaledPrecondStrategy = None\n            \n        def scaled', '        scaling, invScaling, scaledPrecondStrategy = _diagonal_scaling(precondStrategy, x0, p)\n\n        def scaled'), ('class ScaledObjective(Objective):', 'def _diagonal_scaling(strategy, x, params):\n    if not strategy:\n        return 1.0, 1.0, None\n    strategy.initialize(x, params)\n    stiffnessDiagonal = strategy.precond_at_attempt(0).diagonal()\n    d = np.sqrt(stiffnessDiagonal)\n    dInv = np.power(d, -1)\n    return d, dInv, ScaledPrecondStrategy(dofScaling=dInv, precondStrategy=strategy)\n\n\nclass ScaledObjective(Objective):')), None),
+        Variant('preserving: bcs-with-timer-and-kwonly', 'optimism/BoundConstrainedSolver.py', subs(('    boundConstrainedObjective.reset_kappa()\n    \n    xBar0 = boundConstrainedObjective.scaling * x0', '    boundConstrainedObjective.reset_kappa()\n    obj = boundConstrainedObjective\n    xBar0 = np.multiply(obj.scaling, x0)')), None),
+        Variant('breaking: ws-operator-args-swapped', 'optimism/WarmStart.py', subs(('    op = lambda v: objective.hessian_vec(x, v)\n    \n    Lop', '    op = lambda v: objective.hessian_vec(v, x)\n    \n    Lop')), 'D1/T7-predictor-sign'),
+        Variant('breaking: ws-negated-operator-only', 'optimism/WarmStart.py', subs(('    op = lambda v: objective.hessian_vec(x, v)\n    \n    Lop', '    op = lambda v: -objective.hessian_vec(x, v)\n    \n    Lop')), 'D1/T7-predictor-sign'),
+        Variant('breaking: ws-jaxsafe-sign', 'optimism/WarmStart.py', subs(('dp0 = objective.p[0] - pNew', 'dp0 = pNew - objective.p[0]')), 'D1/T7-predictor-sign'),
+        Variant('breaking: ws-jaxsafe-except-branch-negated', 'optimism/WarmStart.py', subs(('    except AttributeError:\n        op = lambda v: objective.hessian_vec(x, v)', '    except AttributeError:\n        op = lambda v: -objective.hessian_vec(x, v)')), 'D1/T7-predictor-sign'),
+        Variant('breaking: ws-precond-as-operator', 'optimism/WarmStart.py', subs(("    dx, cgWarmStartSolveSuccess = cg(Lop, b, M=LopPrecond, callback=callback)\n    print('num warm start cg iters = ', numIters)\n    # assert(cgWarmStartSolveSuccess==0)\n    \n    return dx \n\n\nfrom jax", "    dx, cgWarmStartSolveSuccess = cg(LopPrecond, b, M=Lop, callback=callback)\n    print('num warm start cg iters = ', numIters)\n    # assert(cgWarmStartSolveSuccess==0)\n    \n    return dx \n\n\nfrom jax")), 'D1/T7-predictor-sign'),
+        Variant('breaking: nes-p-before-warm-in-one-branch', 'optimism/EquationSolver.py', subs(('        if updatePrecond:\n            objective.update_precond(xBar0)\n        \n        dxBar = WarmStart.warm_start_increment(objective,\n                                               xBar0, p)\n        xBar0 += dxBar\n        objective.p = p', '        if updatePrecond:\n            objective.p = p\n            objective.update_precond(xBar0)\n        \n        dxBar = WarmStart.warm_start_increment(objective,\n                                               xBar0, p)\n        xBar0 += dxBar\n        objective.p = p')), 'D2/T2-parameters-before-solve'),
+        Variant('breaking: nes-precond-at-unscaled', 'optimism/EquationSolver.py', subs(('    if updatePrecond:\n        objective.update_precond(xBar0)\n        \n    xBar, solverSuccess = solver_algorithm', '    if updatePrecond:\n        objective.update_precond(x0)\n        \n    xBar, solverSuccess = solver_algorithm')), 'D3/T6-scaling-transparent'),
+        Variant('breaking: nes-old-p-to-warm', 'optimism/EquationSolver.py', subs(('        dxBar = WarmStart.warm_start_increment(objective,\n                                               xBar0, p)', '        dxBar = WarmStart.warm_start_increment(objective,\n                                               xBar0, objective.p)')), 'D2/T2-parameters-before-solve'),
+        Variant('breaking: nes-increment-twice', 'optimism/EquationSolver.py', subs(('        xBar0 += dxBar\n        objective.p = p', '        xBar0 += 2*dxBar\n        objective.p = p')), 'D1/T7-predictor-sign'),
+        Variant('breaking: spg-returns-start', 'optimism/TrustRegionSPG.py', subs(('    return objective.invScaling * xBar, solverSuccess', '    return objective.invScaling * xBar0, solverSuccess')), 'D3/T6-scaling-transparent'),
+        Variant('breaking: spg-solver-gets-x0', 'optimism/TrustRegionSPG.py', subs(('bound_constrained_trust_region_minimize(objective, xBar0, bounds, settings,', 'bound_constrained_trust_region_minimize(objective, x0, bounds, settings,')), 'D3/T6-scaling-transparent'),
+        Variant('breaking: spg-lower-bound-dropped', 'optimism/TrustRegionSPG.py', subs(('    bounds = np.column_stack((lBar, uBar))', '    bounds = np.column_stack((uBar, uBar))')), 'D3/T6-scaling-transparent'),
+        Variant('breaking: al-subtracts', 'optimism/AlSolver.py', subs(('        x += WarmStart.warm_start_increment(alObjective, x, p)', '        x -= WarmStart.warm_start_increment(alObjective, x, p)')), 'D1/T7-predictor-sign'),
+        Variant('breaking: al-p-reset-in-loop', 'optimism/AlSolver.py', subs(('        if callback: callback(x, alObjective.p)\n        \n        updatePrecond=False', '        if callback: callback(x, alObjective.p)\n        alObjective.p = alObjective.pOld\n        updatePrecond=False')), 'D2/T2-parameters-before-solve'),
+        Variant('breaking: bcs-forwards-old-p', 'optimism/BoundConstrainedSolver.py', subs(('    xBar = AlSolver.augmented_lagrange_solve(boundConstrainedObjective,\n                                             xBar0, p,', '    pOld = boundConstrainedObjective.p\n    xBar = AlSolver.augmented_lagrange_solve(boundConstrainedObjective,\n                                             xBar0, pOld,'), ('    boundConstrainedObjective.reset_kappa()\n', '    boundConstrainedObjective.reset_kappa()\n    pPrev = boundConstrainedObjective.p\n'), ('xBar0, pOld,', 'xBar0, pPrev,'), ('    pOld = boundConstrainedObjective.p\n', '')), 'D2/T2-parameters-before-solve'),
+        Variant('breaking: bcs-returns-unscaled-wrongly', 'optimism/BoundConstrainedSolver.py', subs(('    return boundConstrainedObjective.invScaling * xBar', '    return xBar')), 'D3/T6-scaling-transparent'),
+        Variant('breaking: so-swapped-attrs', 'optimism/Objective.py', subs(('        self.scaling = scaling\n        self.invScaling = invScaling\n        \n\n    def get_value', '        self.scaling = invScaling\n        self.invScaling = scaling\n        \n\n    def get_value')), 'D3/T6-scaling-transparent'),
+        Variant('breaking: so-forgets-scaling-attr', 'optimism/Objective.py', subs(('        self.scaling = scaling\n        self.invScaling = invScaling\n        \n\n    def get_value', '        self.invScaling = invScaling\n        \n\n    def get_value')), 'D3/T6-scaling-transparent'),
+        Variant('breaking: so-strategy-initialised-at-zero', 'optimism/Objective.py', subs(('            precondStrategy.initialize(x0, p)\n            K0 = precondStrategy.precond_at_attempt(0)\n            scaling = np.sqrt(K0.diagonal())\n            invScaling = 1.0/scaling\n            \n', '            precondStrategy.initialize(0.0*x0, p)\n            K0 = precondStrategy.precond_at_attempt(0)\n            scaling = np.sqrt(K0.diagonal())\n            invScaling = 1.0/scaling\n            \n')), 'D3/T6-scaling-transparent'),
+        Variant('breaking: bco-start-invscaled', 'optimism/BoundConstrainedObjective.py', subs(('        xBar0 = scaling * x0', '        xBar0 = invScaling * x0')), 'D3/T6-scaling-transparent'),
+        Variant('breaking: bco-objective-unscaled', 'optimism/BoundConstrainedObjective.py', subs(('            x = invScaling * xBar\n            return objective_func(x, p)', '            x = invScaling * xBar\n            return objective_func(xBar, p)')), 'D3/T6-scaling-transparent'),
+        Variant('breaking: bco-strategy-initialize-scaled', 'optimism/BoundConstrainedObjective.py', subs(('        self.ps.initialize(self.diagScaling*x, p)', '        self.ps.initialize(x, p)')), 'D3/T6-scaling-transparent'),
+        Variant('breaking: sps-attempt-ignored', 'optimism/Objective.py', subs(('        K = self.ps.precond_at_attempt(attempt)\n        K2 = csc_matrix( self.invScaling.T', '        K = self.ps.precond_at_attempt(0)\n        K2 = csc_matrix( self.invScaling.T')), 'D3/T6-scaling-transparent'),
+        Variant('breaking: obj-jvp2-wrong-primal', 'optimism/Objective.py', subs(('                                   (p[2],),\n                                   (vp2,))[1])', '                                   (p[0],),\n                                   (vp2,))[1])')), 'D4/T5-parameter-slots'),
+        Variant('breaking: obj-jacobian_p2-delegates-slot0', 'optimism/Objective.py', subs(('        return self.jac_xp2_vec(x, self.p, vp)', '        return self.jac_xp_vec(x, self.p, vp)')), 'D4/T5-parameter-slots'),
+        Variant('breaking: obj-hessvec-returns-primal', 'optimism/Objective.py', subs(('                              jvp(lambda z: self.grad_x(z,p), (x,), (vx,))[1])', '                              jvp(lambda z: self.grad_x(z,p), (x,), (vx,))[0])')), 'D4/T5-parameter-slots'),
+        Variant('breaking: obj-hessvec-captures-p', 'optimism/Objective.py', subs(('                              jvp(lambda z: self.grad_x(z,p), (x,), (vx,))[1])', '                              jvp(lambda z: self.grad_x(z,self.p), (x,), (vx,))[1])')), 'D4/T5-parameter-slots'),
+        Variant('breaking: piu-slot2-overwrites-3', 'optimism/Objective.py', subs(('        return Params(p[0], p[1], newParam, p[3], p[4], p[5])', '        return Params(p[0], p[1], p[2], newParam, p[4], p[5])')), 'D4/T5-parameter-slots'),
     ]
